@@ -1,333 +1,27 @@
 import PV.Model.CCode
 import PV.Proofs.PyEqEquiv
 import PV.Proofs.CCodeInv
+import PV.Proofs.CCodeChain
+import PV.Proofs.CCodeDenV
 /-
   C14.  The C value of the printed structure on the integer fragment.
 
-  `denN`   : the reference meaning of the integer fragment (Python's floor division / remainder,
-             defined only on non-negative dividends and positive divisors, integer variables,
-             unbounded ints); `denN_sound` ties it to `den`.
-  `intFrag`: the syntactic fragment on which the C mapper's text is read by C as the tree says.
+  `denV`   (CCodeDenV) : the reference meaning of the fragment (Python's operators on ints and bools
+             under the guards: non-negative dividend / positive divisor, non-negative shifts and
+             bitwise operands, integer variables, unbounded ints); `denV_sound` ties it to `den`.
+  `cFragM` : the syntactic fragment on which the C mapper's text is read by C as the tree says
+             (`cFragM false` = the arithmetic part `intFrag`, which needs fewer facts about the
+             precedence table; `cFragM true` adds comparisons, `?:`, `&&`/`||`/`!`, bitwise
+             operators, shifts, two-operand `min`/`max`).
   `value_core`: for every expression of the fragment, whatever the allocator state and the
-             enclosing precedence, `denC` of the printed structure is `denN`.
+             enclosing precedence, the printed structure is well formed for C's grammar
+             (`cwf`, so `denC = denT` by `denC_eq_denT`), exposes only operators its context can
+             take, and its value is `denV`.
+  `denN`, `intFrag`: the arithmetic fragment of the first version, kept for
+             `ccode_value_int_partial`.
 -/
 namespace PV.C14
 open PV
-
-def sumL : List Int → Int
-  | [] => 0
-  | x :: xs => x + sumL xs
-
-def prodL : List Int → Int
-  | [] => 1
-  | x :: xs => x * prodL xs
-
-/-! ### evaluation lemmas for the C reading -/
-
-/-- all exposed multiplicative operators are `*` (no `/` or `%` that a surrounding product chain
-could capture) -/
-def mulSafe : Doc → Bool
-  | .bin l op r => if op.isMul then (op == .times) && mulSafe l && mulSafe r else true
-  | _ => true
-
-def atomic : Doc → Bool
-  | .lit _ | .var _ | .paren _ => true
-  | _ => false
-
-@[simp] theorem isMul_plus : COp.plus.isMul = false := rfl
-@[simp] theorem isMul_minus : COp.minus.isMul = false := rfl
-@[simp] theorem isMul_times : COp.times.isMul = true := rfl
-@[simp] theorem isMul_divSp : COp.divSp.isMul = true := rfl
-@[simp] theorem isMul_divTight : COp.divTight.isMul = true := rfl
-@[simp] theorem isMul_mod : COp.mod.isMul = true := rfl
-
-theorem apply_add_shift (op : COp) (hop : op.isMul = false) (acc a n : Int) :
-    op.apply (acc + a) n = (op.apply a n).map (acc + ·) := by
-  cases op <;> simp_all [COp.apply, COp.isMul] <;> omega
-
-/-- additive operators: a pending summand commutes with applying the text -/
-theorem applyC_add_shift (env : Env) : ∀ (d : Doc) (op : COp) (acc a : Int), op.isMul = false →
-    applyC env (acc + a) op d = (applyC env a op d).map (acc + ·)
-  | .lit n, op, acc, a, hop => by simp only [applyC]; exact apply_add_shift op hop acc a n
-  | .var x, op, acc, a, hop => by
-      simp only [applyC]
-      cases envInt env x with
-      | none => rfl
-      | some v => exact apply_add_shift op hop acc a v
-  | .atom _, op, acc, a, hop => by simp [applyC]
-  | .paren d, op, acc, a, hop => by
-      simp only [applyC]
-      cases denC env d with
-      | none => rfl
-      | some v => exact apply_add_shift op hop acc a v
-  | .bin r1 op' r2, op, acc, a, hop => by
-      simp only [applyC, hop]
-      by_cases hl : op'.isMul = false
-      · simp only [hl, beq_self_eq_true, if_true]
-        rw [applyC_add_shift env r1 op acc a hop]
-        cases applyC env a op r1 with
-        | none => rfl
-        | some w =>
-          simp only [Option.map_some]
-          exact applyC_add_shift env r2 op' acc w hl
-      · have hl' : op'.isMul = true := by simpa using hl
-        simp only [hl', Bool.true_eq_false, Bool.false_eq_true, if_false, beq_iff_eq]
-        cases r1.addBare with
-        | true => simp
-        | false =>
-          simp only [Bool.false_eq_true, if_false]
-          cases denC env r1 with
-          | none => rfl
-          | some a1 =>
-            simp only []
-            cases applyC env a1 op' r2 with
-            | none => rfl
-            | some v => exact apply_add_shift op hop acc a v
-
-/-- `acc + <text of d>` is `acc + value of d` -/
-theorem applyC_plus (env : Env) : ∀ (d : Doc) (acc v : Int), denC env d = some v →
-    applyC env acc .plus d = some (acc + v)
-  | .lit n, acc, v, h => by simp_all [applyC, denC, COp.apply]
-  | .var x, acc, v, h => by simp_all [applyC, denC, COp.apply]
-  | .atom _, acc, v, h => by simp [denC] at h
-  | .paren d, acc, v, h => by simp_all [applyC, denC, COp.apply]
-  | .bin l op' r, acc, v, h => by
-      simp only [denC] at h
-      by_cases hl : op'.isMul = false
-      · simp only [hl, Bool.false_and, Bool.false_eq_true, if_false] at h
-        cases hdl : denC env l with
-        | none => simp [hdl] at h
-        | some a =>
-          simp only [hdl] at h
-          simp only [applyC, hl, isMul_plus, beq_self_eq_true, if_true]
-          rw [applyC_plus env l acc a hdl]
-          simp only []
-          rw [applyC_add_shift env r op' acc a hl, h]
-          rfl
-      · have hl' : op'.isMul = true := by simpa using hl
-        simp only [hl', Bool.true_and] at h
-        cases hab : l.addBare with
-        | true => simp [hab] at h
-        | false =>
-          simp only [hab, Bool.false_eq_true, if_false] at h
-          cases hdl : denC env l with
-          | none => simp [hdl] at h
-          | some a =>
-            simp only [hdl] at h
-            simp [applyC, hl', hab, hdl, h, COp.apply]
-
-/-- an operand that is not an unparenthesised additive chain is evaluated first -/
-theorem applyC_of_not_addBare (env : Env) (op : COp) (hop : op.isMul = false) :
-    ∀ (d : Doc) (acc v : Int), denC env d = some v → d.addBare = false →
-    applyC env acc op d = op.apply acc v
-  | .lit n, acc, v, h, _ => by simp_all [applyC, denC]
-  | .var x, acc, v, h, _ => by simp_all [applyC, denC]
-  | .atom _, acc, v, h, _ => by simp [denC] at h
-  | .paren d, acc, v, h, _ => by simp_all [applyC, denC]
-  | .bin l op' r, acc, v, h, hb => by
-      have hl' : op'.isMul = true := by simpa [Doc.addBare] using hb
-      simp only [denC, hl', Bool.true_and] at h
-      cases hab : l.addBare with
-      | true => simp [hab] at h
-      | false =>
-        simp only [hab, Bool.false_eq_true, if_false] at h
-        cases hdl : denC env l with
-        | none => simp [hdl] at h
-        | some a =>
-          simp only [hdl] at h
-          simp [applyC, hl', hop, hab, hdl, h]
-
-theorem applyC_mul_shift (env : Env) : ∀ (d : Doc) (acc a : Int), mulSafe d = true →
-    applyC env (acc * a) .times d = (applyC env a .times d).map (acc * ·)
-  | .lit n, acc, a, _ => by simp [applyC, COp.apply, Int.mul_assoc]
-  | .var x, acc, a, _ => by
-      simp only [applyC]
-      cases envInt env x <;> simp [COp.apply, Int.mul_assoc]
-  | .atom _, acc, a, _ => by simp [applyC]
-  | .paren d, acc, a, _ => by
-      simp only [applyC]
-      cases denC env d <;> simp [COp.apply, Int.mul_assoc]
-  | .bin r1 op' r2, acc, a, hs => by
-      simp only [mulSafe] at hs
-      by_cases hl : op'.isMul = true
-      · simp only [hl, if_true, Bool.and_eq_true, beq_iff_eq] at hs
-        obtain ⟨⟨rfl, h1⟩, h2⟩ := hs
-        simp only [applyC, isMul_times, beq_self_eq_true, if_true]
-        rw [applyC_mul_shift env r1 acc a h1]
-        cases applyC env a .times r1 with
-        | none => rfl
-        | some w =>
-          simp only [Option.map_some]
-          exact applyC_mul_shift env r2 acc w h2
-      · have hl' : op'.isMul = false := by simpa using hl
-        simp [applyC, hl']
-
-/-- `acc * <text of d>` is `acc * value of d` when no `/`, `%` or `+` of `d` is exposed -/
-theorem applyC_times (env : Env) : ∀ (d : Doc) (acc v : Int), denC env d = some v →
-    mulSafe d = true → d.addBare = false → applyC env acc .times d = some (acc * v)
-  | .lit n, acc, v, h, _, _ => by simp_all [applyC, denC, COp.apply]
-  | .var x, acc, v, h, _, _ => by simp_all [applyC, denC, COp.apply]
-  | .atom _, acc, v, h, _, _ => by simp [denC] at h
-  | .paren d, acc, v, h, _, _ => by simp_all [applyC, denC, COp.apply]
-  | .bin l op' r, acc, v, h, hs, hb => by
-      have hl' : op'.isMul = true := by simpa [Doc.addBare] using hb
-      simp only [mulSafe, hl', if_true, Bool.and_eq_true, beq_iff_eq] at hs
-      obtain ⟨⟨rfl, h1⟩, h2⟩ := hs
-      simp only [denC, isMul_times, Bool.true_and] at h
-      cases hab : l.addBare with
-      | true => simp [hab] at h
-      | false =>
-        simp only [hab, Bool.false_eq_true, if_false] at h
-        cases hdl : denC env l with
-        | none => simp [hdl] at h
-        | some a =>
-          simp only [hdl] at h
-          simp only [applyC, isMul_times, beq_self_eq_true, if_true]
-          rw [applyC_times env l acc a hdl h1 hab]
-          simp only []
-          rw [applyC_mul_shift env r acc a h2, h]
-          rfl
-
-theorem applyC_atomic (env : Env) (op : COp) : ∀ (d : Doc) (acc v : Int), denC env d = some v →
-    atomic d = true → applyC env acc op d = op.apply acc v
-  | .lit n, acc, v, h, _ => by simp_all [applyC, denC]
-  | .var x, acc, v, h, _ => by simp_all [applyC, denC]
-  | .atom _, acc, v, h, _ => by simp [denC] at h
-  | .paren d, acc, v, h, _ => by simp_all [applyC, denC]
-  | .bin .., acc, v, h, ha => by simp [atomic] at ha
-
-/-! ### sums and products of printed operands -/
-
-def sumC (env : Env) : List Doc → Option Int
-  | [] => some 0
-  | d :: ds => match denC env d, sumC env ds with
-    | some v, some s => some (v + s)
-    | _, _ => none
-
-def prodC (env : Env) : List Doc → Option Int
-  | [] => some 1
-  | d :: ds => match denC env d, prodC env ds with
-    | some v, some s => some (v * s)
-    | _, _ => none
-
-theorem join_plus (env : Env) : ∀ (ds : List Doc) (d0 : Doc) (a s : Int), denC env d0 = some a →
-    sumC env ds = some s →
-    denC env (ds.foldl (fun acc x => .bin acc .plus x) d0) = some (a + s)
-  | [], d0, a, s, h0, hs => by
-      simp only [sumC, Option.some.injEq] at hs
-      subst hs
-      simpa using h0
-  | x :: xs, d0, a, s, h0, hs => by
-      simp only [sumC] at hs
-      cases hx : denC env x with
-      | none => simp [hx] at hs
-      | some vx =>
-        cases hr : sumC env xs with
-        | none => simp [hx, hr] at hs
-        | some sr =>
-          simp only [hx, hr, Option.some.injEq] at hs
-          subst hs
-          simp only [List.foldl_cons]
-          have : denC env (.bin d0 .plus x) = some (a + vx) := by
-            simp [denC, h0, applyC_plus env x a vx hx]
-          rw [join_plus env xs _ (a + vx) sr this hr, Int.add_assoc]
-
-theorem join_minus (env : Env) : ∀ (ds : List Doc) (d0 : Doc) (a s : Int), denC env d0 = some a →
-    sumC env ds = some s → (∀ x ∈ ds, x.addBare = false) →
-    denC env (ds.foldl (fun acc x => .bin acc .minus x) d0) = some (a - s)
-  | [], d0, a, s, h0, hs, _ => by
-      simp only [sumC, Option.some.injEq] at hs
-      subst hs
-      simpa using h0
-  | x :: xs, d0, a, s, h0, hs, hb => by
-      simp only [sumC] at hs
-      cases hx : denC env x with
-      | none => simp [hx] at hs
-      | some vx =>
-        cases hr : sumC env xs with
-        | none => simp [hx, hr] at hs
-        | some sr =>
-          simp only [hx, hr, Option.some.injEq] at hs
-          subst hs
-          simp only [List.foldl_cons]
-          have : denC env (.bin d0 .minus x) = some (a - vx) := by
-            simp [denC, h0,
-              applyC_of_not_addBare env .minus rfl x a vx hx (hb x (by simp)), COp.apply]
-          rw [join_minus env xs _ (a - vx) sr this hr (fun y hy => hb y (by simp [hy]))]
-          congr 1
-          omega
-
-theorem join_times (env : Env) : ∀ (ds : List Doc) (d0 : Doc) (a s : Int), denC env d0 = some a →
-    d0.addBare = false → mulSafe d0 = true →
-    prodC env ds = some s → (∀ x ∈ ds, x.addBare = false ∧ mulSafe x = true) →
-    denC env (ds.foldl (fun acc x => .bin acc .times x) d0) = some (a * s) ∧
-    (ds.foldl (fun acc x => Doc.bin acc .times x) d0).addBare = false ∧
-    mulSafe (ds.foldl (fun acc x => .bin acc .times x) d0) = true
-  | [], d0, a, s, h0, hb0, hm0, hs, _ => by
-      simp only [prodC, Option.some.injEq] at hs
-      subst hs
-      simp [h0, hb0, hm0]
-  | x :: xs, d0, a, s, h0, hb0, hm0, hs, hb => by
-      simp only [prodC] at hs
-      cases hx : denC env x with
-      | none => simp [hx] at hs
-      | some vx =>
-        cases hr : prodC env xs with
-        | none => simp [hx, hr] at hs
-        | some sr =>
-          simp only [hx, hr, Option.some.injEq] at hs
-          subst hs
-          simp only [List.foldl_cons]
-          obtain ⟨hbx, hmx⟩ := hb x (by simp)
-          have h1 : denC env (.bin d0 .times x) = some (a * vx) := by
-            simp [denC, h0, hb0, applyC_times env x a vx hx hmx hbx]
-          have h2 : (Doc.bin d0 .times x).addBare = false := by simp [Doc.addBare]
-          have h3 : mulSafe (.bin d0 .times x) = true := by simp [mulSafe, hm0, hmx]
-          have := join_times env xs _ (a * vx) sr h1 h2 h3 hr (fun y hy => hb y (by simp [hy]))
-          rw [Int.mul_assoc] at this
-          exact this
-
-/-! sorting does not change the sum -/
-
-theorem sumC_insert (env : Env) (rev : Bool) (x : Doc) : ∀ l : List Doc,
-    sumC env (insertDoc rev x l) = sumC env (x :: l)
-  | [] => rfl
-  | y :: ys => by
-      simp only [insertDoc]
-      split
-      · rfl
-      · simp only [sumC, sumC_insert env rev x ys]
-        cases denC env x <;> cases denC env y <;> cases sumC env ys <;> simp <;> omega
-
-theorem sumC_sort (env : Env) (rev : Bool) : ∀ l : List Doc, sumC env (sortDocs rev l) = sumC env l
-  | [] => rfl
-  | x :: xs => by
-      simp only [sortDocs, sumC_insert, sumC, sumC_sort env rev xs]
-
-theorem mem_insertDoc (rev : Bool) (x y : Doc) : ∀ l : List Doc,
-    y ∈ insertDoc rev x l ↔ y = x ∨ y ∈ l
-  | [] => by simp [insertDoc]
-  | z :: zs => by
-      simp only [insertDoc]
-      split
-      · simp
-      · simp only [List.mem_cons, mem_insertDoc rev x y zs]
-        constructor
-        · rintro (h | h | h) <;> simp [h]
-        · rintro (h | h | h) <;> simp [h]
-
-theorem mem_sortDocs (rev : Bool) (y : Doc) : ∀ l : List Doc, y ∈ sortDocs rev l ↔ y ∈ l
-  | [] => by simp [sortDocs]
-  | x :: xs => by simp [sortDocs, mem_insertDoc, mem_sortDocs rev y xs]
-
-theorem sortDocs_ne_nil (rev : Bool) : ∀ l : List Doc, l ≠ [] → sortDocs rev l ≠ []
-  | [], h => absurd rfl h
-  | x :: xs, _ => by
-      intro hc
-      have : x ∈ sortDocs rev (x :: xs) := (mem_sortDocs rev x _).mpr (by simp)
-      rw [hc] at this
-      cases this
-
 
 /-! ### the reference meaning of the integer fragment -/
 
@@ -353,13 +47,6 @@ def denNL (env : Env) : List Expr → Option (List Int)
     | some v, some vs => some (v :: vs)
     | _, _ => none
 end
-
-theorem envInt_get {env : Env} {x : String} {n : Int} (h : envInt env x = some n) :
-    env.get x = some (.int n) := by
-  unfold envInt at h
-  split at h
-  · simp only [Option.some.injEq] at h; subst h; assumption
-  · cases h
 
 theorem add_int (a b : Int) : Value.add (.int a) (.int b) = .ok (.int (a + b)) := rfl
 theorem mul_int (a b : Int) : Value.mul (.int a) (.int b) = .ok (.int (a * b)) := rfl
@@ -519,25 +206,6 @@ theorem denN_sound (env : Env) (e : Expr) : ∀ v, denN env e = some v → den e
 
 /-! ### the fragment -/
 
-def isRem : Expr → Bool
-  | .bin .rem _ _ => true
-  | _ => false
-
-def isPow : Expr → Bool
-  | .bin .pow _ _ => true
-  | _ => false
-
-/-- `-1 * …`: the product that `map_sum` prints with a minus sign -/
-def negShape : Expr → Bool
-  | .nary .prod (.const (.int n) :: _) => n == -1
-  | _ => false
-
-/-- what `get_neg_product` returns for a product `-1 * …` -/
-def negBody : Expr → Expr
-  | .nary .prod [_, b] => b
-  | .nary .prod (_ :: rest) => .nary .prod rest
-  | e => e
-
 mutual
 /-- integer constants, variables, sums (first term not of the form `-1 * …`), products of at least
 two factors none of which is a remainder, floor division, remainder whose divisor is not a power,
@@ -603,153 +271,191 @@ theorem plusOneIsZero_node (e : Expr) (h : e.isNode = true) : plusOneIsZero e = 
   obtain ⟨r, h1, h2⟩ := node_add_one e h
   cases e <;> simp [Expr.isNode] at h <;> simp [plusOneIsZero, h1, h2, pure, Except.pure]
 
-theorem intFrag_head (e : Expr) (h : intFrag e = true) :
-    (∃ n, e = .const (.int n)) ∨ e.isNode = true := by
-  cases e with
-  | const c => cases c <;> simp [intFrag] at h; exact Or.inl ⟨_, rfl⟩
-  | tuple cs => simp [intFrag] at h
-  | list cs => simp [intFrag] at h
-  | _ => exact Or.inr rfl
-
 def isNegOneE : Expr → Bool
   | .const (.int n) => n == -1
   | _ => false
 
-theorem plusOneIsZero_frag (c0 : Expr) (h : intFrag c0 = true) :
-    plusOneIsZero c0 = .ok (isNegOneE c0) := by
-  rcases intFrag_head c0 h with ⟨n, rfl⟩ | hn
-  · simp only [plusOneIsZero, isNegOneE, pure, Except.pure]
-    have : (n + 1 == 0) = (n == -1) := by
-      rw [Bool.eq_iff_iff]
-      simp only [beq_iff_eq]
-      omega
-    rw [this]
-  · rw [plusOneIsZero_node c0 hn]
-    cases c0 <;> simp [Expr.isNode] at hn <;> rfl
 
-/-- `get_neg_product` on the fragment: exactly the products `-1 * …` -/
-theorem negProd_frag (ch : Expr) (h : intFrag ch = true) :
-    negProd ch = .ok (if negShape ch then some (negBody ch) else none) := by
-  cases ch with
+/-! ### the enlarged fragment -/
+
+/-- the node kinds of `cFragM true` that print a C operator of a level below `+` -/
+def newKind : Expr → Bool
+  | .nary .band _ | .nary .bxor _ | .nary .bor _ | .nary .land _ | .nary .lor _ => true
+  | .bin .lshift _ _ | .bin .rshift _ _ => true
+  | .cmp _ _ _ => true
+  | _ => false
+
+/-- what the arithmetic part needs of the precedence table -/
+def PrecA (S : PrintPrec) : Prop := S.sum < S.product ∧ S.product < S.power
+
+/-- … and the rest: Python's order of the levels below `+`, and the unary level above `*` -/
+def PrecB (S : PrintPrec) : Prop :=
+  S.lor < S.land ∧ S.land < S.comparison ∧ S.comparison < S.bor ∧ S.bor < S.bxor ∧
+  S.bxor < S.band ∧ S.band < S.shift ∧ S.shift < S.sum ∧ S.product < S.unary
+
+/-- the mapper's own level: parentheses are added when the enclosing precedence exceeds it -/
+def pyPrec (S : PrintPrec) : Expr → Nat
+  | .nary .sum _ => S.sum
+  | .nary .prod _ => S.product
+  | .nary .band _ => S.band
+  | .nary .bxor _ => S.bxor
+  | .nary .bor _ => S.bor
+  | .nary .land _ => S.land
+  | .nary .lor _ => S.lor
+  | .bin .rem _ _ => S.product
+  | .bin .pow _ _ => S.product
+  | .bin .lshift _ _ => S.shift
+  | .bin .rshift _ _ => S.shift
+  | .cmp _ _ _ => S.comparison
+  | _ => 0
+
+/-- C's level of the operator the node prints (11: a primary) -/
+def cRoot : Expr → Nat
+  | .nary .sum _ => 9
+  | .nary .prod _ => 10
+  | .nary .band _ => 5
+  | .nary .bxor _ => 4
+  | .nary .bor _ => 3
+  | .nary .land _ => 2
+  | .nary .lor _ => 1
+  | .bin .rem _ _ => 10
+  | .bin .pow _ _ => 10
+  | .bin .lshift _ _ => 8
+  | .bin .rshift _ _ => 8
+  | .cmp .eq _ _ => 6
+  | .cmp .ne _ _ => 6
+  | .cmp _ _ _ => 7
+  | _ => 11
+
+/-- the lowest C level the text of `e` printed with enclosing precedence `k` may expose -/
+def cRootAt (S : PrintPrec) (k : Nat) (e : Expr) : Nat := if k ≤ pyPrec S e then cRoot e else 11
+
+/-- in every context of the fragment, what a child may expose suits the context -/
+theorem ctx_all (S : PrintPrec) (hA : PrecA S) (e : Expr) (h : PrecB S ∨ newKind e = false) :
+    9 ≤ cRootAt S S.sum e ∧ 10 ≤ cRootAt S S.product e ∧ 11 ≤ cRootAt S S.power e ∧
+    (PrecB S → 11 ≤ cRootAt S S.unary e ∧ 9 ≤ cRootAt S (S.shift + 1) e ∧
+      (isBitwise e = false → 8 ≤ cRootAt S (S.comparison + 1) e) ∧
+      5 ≤ cRootAt S S.band e ∧ 4 ≤ cRootAt S S.bxor e ∧ 3 ≤ cRootAt S S.bor e ∧
+      2 ≤ cRootAt S S.land e ∧ 1 ≤ cRootAt S S.lor e) := by
+  obtain ⟨a1, a2⟩ := hA
+  have fin : ∀ (p r : Nat), (PrecB S ∨ newKind e = false) →
+      (pyPrec S e = p ∧ cRoot e = r) →
+      ((r = 11) ∨ (p = S.sum ∧ r = 9) ∨ (p = S.product ∧ r = 10) ∨
+       (PrecB S ∧ ((p = S.band ∧ r = 5 ∧ isBitwise e = true) ∨ (p = S.bxor ∧ r = 4 ∧ isBitwise e = true) ∨
+          (p = S.bor ∧ r = 3 ∧ isBitwise e = true) ∨ (p = S.land ∧ r = 2) ∨ (p = S.lor ∧ r = 1) ∨
+          (p = S.shift ∧ r = 8) ∨ (p = S.comparison ∧ (r = 6 ∨ r = 7))))) →
+      9 ≤ cRootAt S S.sum e ∧ 10 ≤ cRootAt S S.product e ∧ 11 ≤ cRootAt S S.power e ∧
+      (PrecB S → 11 ≤ cRootAt S S.unary e ∧ 9 ≤ cRootAt S (S.shift + 1) e ∧
+        (isBitwise e = false → 8 ≤ cRootAt S (S.comparison + 1) e) ∧
+        5 ≤ cRootAt S S.band e ∧ 4 ≤ cRootAt S S.bxor e ∧ 3 ≤ cRootAt S S.bor e ∧
+        2 ≤ cRootAt S S.land e ∧ 1 ≤ cRootAt S S.lor e) := by
+    intro p r _ hpr hcase
+    obtain ⟨hp, hr⟩ := hpr
+    simp only [cRootAt, hp, hr]
+    rcases hcase with h | ⟨h1, h2⟩ | ⟨h1, h2⟩ | ⟨hB, hc⟩
+    · subst h
+      refine ⟨by split <;> omega, by split <;> omega, by split <;> omega, fun _ =>
+        ⟨by split <;> omega, by split <;> omega, fun _ => by split <;> omega, by split <;> omega,
+         by split <;> omega, by split <;> omega, by split <;> omega, by split <;> omega⟩⟩
+    · subst h1 h2
+      refine ⟨by split <;> omega, by split <;> omega, by split <;> omega, fun hB => ?_⟩
+      obtain ⟨b1, b2, b3, b4, b5, b6, b7, b8⟩ := hB
+      exact ⟨by split <;> omega, by split <;> omega, fun _ => by split <;> omega,
+        by split <;> omega, by split <;> omega, by split <;> omega, by split <;> omega,
+        by split <;> omega⟩
+    · subst h1 h2
+      refine ⟨by split <;> omega, by split <;> omega, by split <;> omega, fun hB => ?_⟩
+      obtain ⟨b1, b2, b3, b4, b5, b6, b7, b8⟩ := hB
+      exact ⟨by split <;> omega, by split <;> omega, fun _ => by split <;> omega,
+        by split <;> omega, by split <;> omega, by split <;> omega, by split <;> omega,
+        by split <;> omega⟩
+    · obtain ⟨b1, b2, b3, b4, b5, b6, b7, b8⟩ := hB
+      rcases hc with ⟨h1, h2, h3⟩ | ⟨h1, h2, h3⟩ | ⟨h1, h2, h3⟩ | ⟨h1, h2⟩ | ⟨h1, h2⟩ | ⟨h1, h2⟩ |
+        ⟨h1, h2⟩
+      all_goals
+        subst h1
+        refine ⟨by split <;> omega, by split <;> omega, by split <;> omega, fun _ =>
+          ⟨by split <;> omega, by split <;> omega, fun hb => ?_, by split <;> omega,
+           by split <;> omega, by split <;> omega, by split <;> omega, by split <;> omega⟩⟩
+        first
+          | (rw [hb] at h3; cases h3)
+          | (split <;> omega)
+  cases e with
   | nary op cs =>
-    cases op with
-    | prod =>
-      match cs, h with
-      | c0 :: c1 :: rest, h =>
-        simp only [intFrag, Bool.and_eq_true] at h
-        have h0 := plusOneIsZero_frag c0 h.1.1
-        simp only [negProd, h0]
-        cases c0 with
-        | const c =>
-          cases c with
-          | int n =>
-            by_cases hn : n = -1
-            · subst hn
-              cases rest <;> simp [isNegOneE, negShape, negBody, pure, Except.pure]
-            · have hf : (n == -1) = false := by simp [hn]
-              simp [isNegOneE, negShape, hf, pure, Except.pure]
-          | _ => simp [isNegOneE, negShape, pure, Except.pure]
-        | _ => simp [isNegOneE, negShape, pure, Except.pure]
-    | _ => simp [negProd, negShape, pure, Except.pure]
-  | _ => simp [negProd, negShape, pure, Except.pure]
-
-theorem intFragP_L : ∀ cs : List Expr, intFragP cs = true → intFragL cs = true
-  | [], _ => rfl
-  | c :: cs, h => by
-      simp only [intFragP, Bool.and_eq_true] at h
-      simp [intFragL, h.1.1, intFragP_L cs h.2]
-
-/-- the body of a `-1 * …` term of the fragment is in the fragment and means the negated value -/
-theorem negBody_val (env : Env) (ch : Expr) (h : intFrag ch = true) (hn : negShape ch = true)
-    (v : Int) (hv : denN env ch = some v) :
-    intFrag (negBody ch) = true ∧ denN env (negBody ch) = some (-v) := by
-  cases ch with
-  | nary op cs =>
-    cases op with
-    | prod =>
-      match cs, h, hn, hv with
-      | .const (.int n) :: c1 :: rest, h, hn, hv =>
-        simp only [negShape, beq_iff_eq] at hn
-        subst hn
-        simp only [intFrag, Bool.and_eq_true] at h
-        obtain ⟨_, hP⟩ := h
-        simp only [denN, denNL] at hv
-        cases h1 : denN env c1 with
-        | none => simp [h1] at hv
-        | some v1 =>
-          cases hr : denNL env rest with
-          | none => simp [h1, hr] at hv
-          | some vr =>
-            simp only [h1, hr, Option.map_some, Option.some.injEq] at hv
-            subst hv
-            cases rest with
-            | nil =>
-              simp only [denNL, Option.some.injEq] at hr
-              subst hr
-              simp only [intFragP, Bool.and_eq_true] at hP
-              refine ⟨by simpa [negBody] using hP.1.1, ?_⟩
-              simp only [negBody, h1, prodL]
-              congr 1
-              omega
-            | cons c2 rest' =>
-              refine ⟨?_, ?_⟩
-              · simp only [negBody, intFrag]
-                simp only [intFragP, Bool.and_eq_true] at hP
-                simp [hP.1.1, hP.1.2, intFragP, hP.2]
-              · simp only [negBody, denN, denNL, h1]
-                simp only [denNL] at hr
-                cases h2 : denN env c2 with
-                | none => simp [h2] at hr
-                | some v2 =>
-                  cases hr' : denNL env rest' with
-                  | none => simp [h2, hr'] at hr
-                  | some vr' =>
-                    simp only [h2, hr', Option.some.injEq] at hr
-                    subst hr
-                    simp only [Option.map_some, prodL]
-                    congr 1
-                    simp [Int.neg_mul]
-    | _ => simp [negShape] at hn
-  | _ => simp [negShape] at hn
-
+    cases op
+    · exact fin _ _ h ⟨rfl, rfl⟩ (Or.inr (Or.inl ⟨rfl, rfl⟩))
+    · exact fin _ _ h ⟨rfl, rfl⟩ (Or.inr (Or.inr (Or.inl ⟨rfl, rfl⟩)))
+    · have hB : PrecB S := by simpa [newKind] using h
+      exact fin _ _ h ⟨rfl, rfl⟩ (Or.inr (Or.inr (Or.inr ⟨hB, Or.inr (Or.inr (Or.inl ⟨rfl, rfl, rfl⟩))⟩)))
+    · have hB : PrecB S := by simpa [newKind] using h
+      exact fin _ _ h ⟨rfl, rfl⟩ (Or.inr (Or.inr (Or.inr ⟨hB, Or.inr (Or.inl ⟨rfl, rfl, rfl⟩)⟩)))
+    · have hB : PrecB S := by simpa [newKind] using h
+      exact fin _ _ h ⟨rfl, rfl⟩ (Or.inr (Or.inr (Or.inr ⟨hB, Or.inl ⟨rfl, rfl, rfl⟩⟩)))
+    · have hB : PrecB S := by simpa [newKind] using h
+      exact fin _ _ h ⟨rfl, rfl⟩ (Or.inr (Or.inr (Or.inr ⟨hB,
+        Or.inr (Or.inr (Or.inr (Or.inr (Or.inl ⟨rfl, rfl⟩))))⟩)))
+    · have hB : PrecB S := by simpa [newKind] using h
+      exact fin _ _ h ⟨rfl, rfl⟩ (Or.inr (Or.inr (Or.inr ⟨hB,
+        Or.inr (Or.inr (Or.inr (Or.inl ⟨rfl, rfl⟩)))⟩)))
+    · exact fin _ _ h ⟨rfl, rfl⟩ (Or.inl rfl)
+    · exact fin _ _ h ⟨rfl, rfl⟩ (Or.inl rfl)
+  | bin op a b =>
+    cases op
+    · exact fin _ _ h ⟨rfl, rfl⟩ (Or.inl rfl)
+    · exact fin _ _ h ⟨rfl, rfl⟩ (Or.inl rfl)
+    · exact fin _ _ h ⟨rfl, rfl⟩ (Or.inr (Or.inr (Or.inl ⟨rfl, rfl⟩)))
+    · exact fin _ _ h ⟨rfl, rfl⟩ (Or.inr (Or.inr (Or.inl ⟨rfl, rfl⟩)))
+    · have hB : PrecB S := by simpa [newKind] using h
+      exact fin _ _ h ⟨rfl, rfl⟩ (Or.inr (Or.inr (Or.inr ⟨hB,
+        Or.inr (Or.inr (Or.inr (Or.inr (Or.inr (Or.inl ⟨rfl, rfl⟩)))))⟩)))
+    · have hB : PrecB S := by simpa [newKind] using h
+      exact fin _ _ h ⟨rfl, rfl⟩ (Or.inr (Or.inr (Or.inr ⟨hB,
+        Or.inr (Or.inr (Or.inr (Or.inr (Or.inr (Or.inl ⟨rfl, rfl⟩)))))⟩)))
+  | cmp o a b =>
+    have hB : PrecB S := by simpa [newKind] using h
+    cases o
+    all_goals
+      first
+        | exact fin _ _ h ⟨rfl, rfl⟩ (Or.inr (Or.inr (Or.inr ⟨hB,
+            Or.inr (Or.inr (Or.inr (Or.inr (Or.inr (Or.inr ⟨rfl, Or.inl rfl⟩)))))⟩)))
+        | exact fin _ _ h ⟨rfl, rfl⟩ (Or.inr (Or.inr (Or.inr ⟨hB,
+            Or.inr (Or.inr (Or.inr (Or.inr (Or.inr (Or.inr ⟨rfl, Or.inr rfl⟩)))))⟩)))
+  | _ => exact fin _ _ h ⟨rfl, rfl⟩ (Or.inl rfl)
 
 /-! ### what the printer guarantees on the fragment -/
 
-def simpleKind (e : Expr) : Bool := !isMultiplicative e && !isPow e
+/-- the printed structure `d` of `e` (printed with enclosing precedence `k`) is well formed for C's
+grammar and exposes only what a context printing at `k` can take -/
+structure Shape (S : PrintPrec) (e : Expr) (k : Nat) (d : Doc) : Prop where
+  wf : cwf d = true
+  expo : ∀ o ∈ exposedOps d, cRootAt S k e ≤ o.prec
+  safe : S.sum < k → isRem e = false → ∀ o ∈ exposedOps d, o.prec = 10 → o = .times
 
-/-- the C value of the printed structure `d` of `e` (printed with enclosing precedence `k`) is `v`,
-and `d` is parenthesised enough for the contexts that print at `k` -/
-structure Facts (env : Env) (S : PrintPrec) (e : Expr) (k : Nat) (d : Doc) (v : Int) : Prop where
-  val : denC env d = some v
-  notAdd : S.sum < k → d.addBare = false
-  safe : S.sum < k → isRem e = false → mulSafe d = true
-  simple : S.sum < k → simpleKind e = true → atomic d = true
-  tight : S.product < k → atomic d = true
+/-- … and whenever the fragment's meaning of `e` is defined, it is the value of `d` -/
+def DocOK (env : Env) (S : PrintPrec) (it : Expr × Nat) (d : Doc) : Prop :=
+  Shape S it.1 it.2 d ∧ ∀ w, denV env it.1 = some w → denT env d = some w.toInt
 
-def GoodV (env : Env) (S : PrintPrec) (f : Printer) : Prop :=
-  ∀ st e enc d refs st' v, intFrag e = true → f st e enc = .ok (d, refs, st') →
-    denN env e = some v → Facts env S e enc d v
+def GoodV (env : Env) (S : PrintPrec) (m : Bool) (f : Printer) : Prop :=
+  ∀ st e enc d refs st', cFragM m e = true → f st e enc = .ok (d, refs, st') →
+    DocOK env S (e, enc) d
 
-def AllFacts (env : Env) (S : PrintPrec) : List (Expr × Nat) → List Doc → List Int → Prop
-  | [], [], [] => True
-  | it :: its, d :: ds, v :: vs => Facts env S it.1 it.2 d v ∧ AllFacts env S its ds vs
-  | _, _, _ => False
+def AllOK (env : Env) (S : PrintPrec) : List (Expr × Nat) → List Doc → Prop
+  | [], [] => True
+  | it :: its, d :: ds => DocOK env S it d ∧ AllOK env S its ds
+  | _, _ => False
 
-theorem printAll_facts (env : Env) (S : PrintPrec) (f : Printer) (hf : GoodV env S f) :
-    ∀ items st ds refs st' vs, (∀ it ∈ items, intFrag it.1 = true) →
-      printAll f st items = .ok (ds, refs, st') → denNL env (items.map (·.1)) = some vs →
-      AllFacts env S items ds vs := by
+theorem printAll_ok (env : Env) (S : PrintPrec) (m : Bool) (f : Printer) (hf : GoodV env S m f) :
+    ∀ items st ds refs st', (∀ it ∈ items, cFragM m it.1 = true) →
+      printAll f st items = .ok (ds, refs, st') → AllOK env S items ds := by
   intro items
   induction items with
   | nil =>
-    intro st ds refs st' vs _ h hv
+    intro st ds refs st' _ h
     simp only [printAll, pure, Except.pure, Except.ok.injEq, Prod.mk.injEq] at h
-    simp only [List.map_nil, denNL, Option.some.injEq] at hv
     obtain ⟨rfl, _, _⟩ := h
-    subst hv
     trivial
   | cons x rest ih =>
-    intro st ds refs st' vs hfr h hv
+    intro st ds refs st' hfr h
     obtain ⟨e, enc⟩ := x
     simp only [printAll, bind, Except.bind] at h
     cases h1 : f st e enc with
@@ -763,17 +469,8 @@ theorem printAll_facts (env : Env) (S : PrintPrec) (f : Printer) (hf : GoodV env
         obtain ⟨ds2, r2, st2⟩ := w2
         simp only [h2, pure, Except.pure, Except.ok.injEq, Prod.mk.injEq] at h
         obtain ⟨rfl, _, _⟩ := h
-        simp only [List.map_cons, denNL] at hv
-        cases hv1 : denN env e with
-        | none => simp [hv1] at hv
-        | some v1 =>
-          cases hv2 : denNL env (rest.map (·.1)) with
-          | none => simp [hv1, hv2] at hv
-          | some vs2 =>
-            simp only [hv1, hv2, Option.some.injEq] at hv
-            subst hv
-            exact ⟨hf st e enc d1 r1 st1 v1 (hfr (e, enc) (by simp)) h1 hv1,
-              ih st1 ds2 r2 st2 vs2 (fun it hit => hfr it (by simp [hit])) h2 hv2⟩
+        exact ⟨hf st e enc d1 r1 st1 (hfr (e, enc) (by simp)) h1,
+          ih st1 ds2 r2 st2 (fun it hit => hfr it (by simp [hit])) h2⟩
 
 theorem ccodeGeneric_ok {S : PrintPrec} {f : Printer} {st : CSt} {e : Expr} {enc : Nat} {d : Doc}
     {refs : List String} {st' : CSt} (h : ccodeGeneric S f st e enc = .ok (d, refs, st')) :
@@ -796,176 +493,530 @@ theorem ccodeGeneric_ok {S : PrintPrec} {f : Printer} {st : CSt} {e : Expr} {enc
         obtain ⟨rfl, rfl, rfl⟩ := h
         exact ⟨pl, ds, rfl, h2, h3⟩
 
-theorem joinDocs_plus_val (env : Env) (l : List Doc) (P : Int) (h : sumC env l = some P)
-    (hne : l ≠ []) : denC env (joinDocs .plus l) = some P := by
-  cases l with
-  | nil => exact absurd rfl hne
-  | cons d ds =>
-    simp only [sumC] at h
-    cases hd : denC env d with
-    | none => simp [hd] at h
-    | some a =>
-      cases hs : sumC env ds with
-      | none => simp [hd, hs] at h
-      | some s =>
-        simp only [hd, hs, Option.some.injEq] at h
-        subst h
-        exact join_plus env ds d a s hd hs
+theorem printAll_nil {f : Printer} {st : CSt} {ds : List Doc} {refs : List String} {st' : CSt}
+    (h : printAll f st [] = .ok (ds, refs, st')) : ds = [] := by
+  simp only [printAll, pure, Except.pure, Except.ok.injEq, Prod.mk.injEq] at h
+  exact h.1.symm
 
-theorem joinDocs_times_val (env : Env) (l : List Doc) (P : Int) (h : prodC env l = some P)
-    (hne : l ≠ []) (hall : ∀ x ∈ l, x.addBare = false ∧ mulSafe x = true) :
-    denC env (joinDocs .times l) = some P ∧ (joinDocs .times l).addBare = false ∧
-      mulSafe (joinDocs .times l) = true := by
-  cases l with
-  | nil => exact absurd rfl hne
-  | cons d ds =>
-    simp only [prodC] at h
-    cases hd : denC env d with
-    | none => simp [hd] at h
-    | some a =>
-      cases hs : prodC env ds with
-      | none => simp [hd, hs] at h
-      | some s =>
-        simp only [hd, hs, Option.some.injEq] at h
-        subst h
-        obtain ⟨h1, h2⟩ := hall d (by simp)
-        exact join_times env ds d a s hd h1 h2 hs (fun x hx => hall x (by simp [hx]))
+/-! ### operators by level -/
+
+theorem rightOK_le {op o : COp} (h : rightOK op o = true) : op.prec ≤ o.prec := by
+  simp only [rightOK, Bool.or_eq_true, decide_eq_true_eq, Bool.and_eq_true, beq_iff_eq] at h
+  rcases h with h | ⟨h, _⟩ <;> omega
+
+theorem rightOK_of_lt {op o : COp} (h : op.prec < o.prec) : rightOK op o = true := by
+  simp [rightOK, h]
+
+theorem rightOK_plus {o : COp} (h : 9 ≤ o.prec) : rightOK .plus o = true := by
+  cases o with
+  | cmp c => cases c <;> simp [COp.prec] at h
+  | _ => simp_all [COp.prec, rightOK, assocPair]
+
+theorem rightOK_band {o : COp} (h : 5 ≤ o.prec) : rightOK .band o = true := by
+  cases o with
+  | cmp c => cases c <;> simp [COp.prec, rightOK]
+  | _ => simp_all [COp.prec, rightOK, assocPair]
+
+theorem rightOK_bxor {o : COp} (h : 4 ≤ o.prec) : rightOK .bxor o = true := by
+  cases o with
+  | cmp c => cases c <;> simp [COp.prec, rightOK]
+  | _ => simp_all [COp.prec, rightOK, assocPair]
+
+theorem rightOK_bor {o : COp} (h : 3 ≤ o.prec) : rightOK .bor o = true := by
+  cases o with
+  | cmp c => cases c <;> simp [COp.prec, rightOK]
+  | _ => simp_all [COp.prec, rightOK, assocPair]
+
+theorem rightOK_land {o : COp} (h : 2 ≤ o.prec) : rightOK .land o = true := by
+  cases o with
+  | cmp c => cases c <;> simp [COp.prec, rightOK]
+  | _ => simp_all [COp.prec, rightOK, assocPair]
+
+theorem rightOK_lor (o : COp) : rightOK .lor o = true := by
+  cases o with
+  | cmp c => cases c <;> simp [COp.prec, rightOK]
+  | _ => simp [COp.prec, rightOK, assocPair]
+
+theorem rightOK_times {o : COp} (h : 10 ≤ o.prec) (hs : o.prec = 10 → o = .times) :
+    rightOK .times o = true := by
+  have h10 : o.prec = 10 := Nat.le_antisymm (prec_le_ten o) h
+  rw [hs h10]
+  rfl
+
+/-- nothing binds tighter than the multiplicative level -/
+theorem no_ops_of_eleven {d : Doc} (h : ∀ o ∈ exposedOps d, 11 ≤ o.prec) : exposedOps d = [] := by
+  cases hd : exposedOps d with
+  | nil => rfl
+  | cons o os =>
+    have := h o (by simp [hd])
+    have := prec_le_ten o
+    omega
+
+/-! ### chains built by the printer -/
+
+theorem foldl_bin (env : Env) (op : COp) : ∀ (ds : List Doc) (d0 : Doc),
+    cwf d0 = true → (∀ o ∈ exposedOps d0, op.prec ≤ o.prec) →
+    (∀ x ∈ ds, cwf x = true ∧ ∀ o ∈ exposedOps x, rightOK op o = true) →
+    cwf (ds.foldl (fun acc x => Doc.bin acc op x) d0) = true ∧
+    (∀ o ∈ exposedOps (ds.foldl (fun acc x => Doc.bin acc op x) d0),
+      o ∈ exposedOps d0 ∨ o = op ∨ ∃ x ∈ ds, o ∈ exposedOps x) ∧
+    denT env (ds.foldl (fun acc x => Doc.bin acc op x) d0) =
+      ds.foldl (fun acc x => op.applyL acc (denT env x)) (denT env d0)
+  | [], d0, h0, _, _ => ⟨h0, fun o ho => Or.inl ho, rfl⟩
+  | x :: xs, d0, h0, hl, hr => by
+      obtain ⟨hx1, hx2⟩ := hr x (by simp)
+      have hw : cwf (Doc.bin d0 op x) = true := by
+        simp only [cwf, Bool.and_eq_true, fitsL, fitsR, List.all_eq_true, decide_eq_true_eq]
+        exact ⟨⟨⟨h0, hx1⟩, hl⟩, hx2⟩
+      have he : ∀ o ∈ exposedOps (Doc.bin d0 op x), op.prec ≤ o.prec := by
+        intro o ho
+        simp only [exposedOps, List.mem_append, List.mem_cons] at ho
+        rcases ho with ho | rfl | ho
+        · exact hl o ho
+        · exact Nat.le_refl _
+        · exact rightOK_le (hx2 o ho)
+      obtain ⟨a, b, c⟩ := foldl_bin env op xs (Doc.bin d0 op x) hw he
+        (fun y hy => hr y (by simp [hy]))
+      refine ⟨by simpa using a, ?_, by simpa [denT] using c⟩
+      intro o ho
+      rcases b o (by simpa using ho) with h | h | ⟨y, hy, h⟩
+      · simp only [exposedOps, List.mem_append, List.mem_cons] at h
+        rcases h with h | h | h
+        · exact Or.inl h
+        · exact Or.inr (Or.inl h)
+        · exact Or.inr (Or.inr ⟨x, by simp, h⟩)
+      · exact Or.inr (Or.inl h)
+      · exact Or.inr (Or.inr ⟨y, by simp [hy], h⟩)
+
+/-- `joinDocs op (d :: ds)` with every operand fit to stand right of `op` -/
+theorem joinDocs_ok (env : Env) (op : COp) (d : Doc) (ds : List Doc)
+    (h : ∀ x ∈ d :: ds, cwf x = true ∧ ∀ o ∈ exposedOps x, rightOK op o = true) :
+    cwf (joinDocs op (d :: ds)) = true ∧
+    (∀ o ∈ exposedOps (joinDocs op (d :: ds)), o = op ∨ ∃ x ∈ d :: ds, o ∈ exposedOps x) ∧
+    denT env (joinDocs op (d :: ds)) =
+      ds.foldl (fun acc x => op.applyL acc (denT env x)) (denT env d) := by
+  obtain ⟨h1, h2⟩ := h d (by simp)
+  obtain ⟨a, b, c⟩ := foldl_bin env op ds d h1 (fun o ho => rightOK_le (h2 o ho))
+    (fun x hx => h x (by simp [hx]))
+  refine ⟨a, ?_, c⟩
+  intro o ho
+  rcases b o ho with h | h | ⟨x, hx, h⟩
+  · exact Or.inr ⟨d, by simp, h⟩
+  · exact Or.inl h
+  · exact Or.inr ⟨x, by simp [hx], h⟩
+
+def sumT (env : Env) : List Doc → Option Int
+  | [] => some 0
+  | d :: ds => match denT env d, sumT env ds with
+    | some v, some s => some (v + s)
+    | _, _ => none
+
+def prodT (env : Env) : List Doc → Option Int
+  | [] => some 1
+  | d :: ds => match denT env d, prodT env ds with
+    | some v, some s => some (v * s)
+    | _, _ => none
+
+theorem applyL_plus_some (a b : Int) : COp.applyL .plus (some a) (some b) = some (a + b) := rfl
+theorem applyL_minus_some (a b : Int) : COp.applyL .minus (some a) (some b) = some (a - b) := rfl
+theorem applyL_times_some (a b : Int) : COp.applyL .times (some a) (some b) = some (a * b) := rfl
+
+theorem fold_plus (env : Env) : ∀ (ds : List Doc) (a s : Int), sumT env ds = some s →
+    ds.foldl (fun acc x => COp.applyL .plus acc (denT env x)) (some a) = some (a + s)
+  | [], a, s, h => by
+      simp only [sumT, Option.some.injEq] at h
+      subst h
+      simp
+  | x :: xs, a, s, h => by
+      simp only [sumT] at h
+      cases hx : denT env x with
+      | none => simp [hx] at h
+      | some vx =>
+        cases hr : sumT env xs with
+        | none => simp [hx, hr] at h
+        | some sr =>
+          simp only [hx, hr, Option.some.injEq] at h
+          subst h
+          simp only [List.foldl_cons, hx, applyL_plus_some]
+          rw [fold_plus env xs (a + vx) sr hr, Int.add_assoc]
+
+theorem fold_minus (env : Env) : ∀ (ds : List Doc) (a s : Int), sumT env ds = some s →
+    ds.foldl (fun acc x => COp.applyL .minus acc (denT env x)) (some a) = some (a - s)
+  | [], a, s, h => by
+      simp only [sumT, Option.some.injEq] at h
+      subst h
+      simp
+  | x :: xs, a, s, h => by
+      simp only [sumT] at h
+      cases hx : denT env x with
+      | none => simp [hx] at h
+      | some vx =>
+        cases hr : sumT env xs with
+        | none => simp [hx, hr] at h
+        | some sr =>
+          simp only [hx, hr, Option.some.injEq] at h
+          subst h
+          simp only [List.foldl_cons, hx, applyL_minus_some]
+          rw [fold_minus env xs (a - vx) sr hr]
+          congr 1
+          omega
+
+theorem fold_times (env : Env) : ∀ (ds : List Doc) (a s : Int), prodT env ds = some s →
+    ds.foldl (fun acc x => COp.applyL .times acc (denT env x)) (some a) = some (a * s)
+  | [], a, s, h => by
+      simp only [prodT, Option.some.injEq] at h
+      subst h
+      simp
+  | x :: xs, a, s, h => by
+      simp only [prodT] at h
+      cases hx : denT env x with
+      | none => simp [hx] at h
+      | some vx =>
+        cases hr : prodT env xs with
+        | none => simp [hx, hr] at h
+        | some sr =>
+          simp only [hx, hr, Option.some.injEq] at h
+          subst h
+          simp only [List.foldl_cons, hx, applyL_times_some]
+          rw [fold_times env xs (a * vx) sr hr, Int.mul_assoc]
+
+/-! sorting does not change the sum -/
+
+theorem sumT_insert (env : Env) (rev : Bool) (x : Doc) : ∀ l : List Doc,
+    sumT env (insertDoc rev x l) = sumT env (x :: l)
+  | [] => rfl
+  | y :: ys => by
+      simp only [insertDoc]
+      split
+      · rfl
+      · simp only [sumT, sumT_insert env rev x ys]
+        cases denT env x <;> cases denT env y <;> cases sumT env ys <;> simp <;> omega
+
+theorem sumT_sort (env : Env) (rev : Bool) : ∀ l : List Doc, sumT env (sortDocs rev l) = sumT env l
+  | [] => rfl
+  | x :: xs => by
+      simp only [sortDocs, sumT_insert, sumT, sumT_sort env rev xs]
+
+theorem mem_insertDoc (rev : Bool) (x y : Doc) : ∀ l : List Doc,
+    y ∈ insertDoc rev x l ↔ y = x ∨ y ∈ l
+  | [] => by simp [insertDoc]
+  | z :: zs => by
+      simp only [insertDoc]
+      split
+      · simp
+      · simp only [List.mem_cons, mem_insertDoc rev x y zs]
+        constructor
+        · rintro (h | h | h) <;> simp [h]
+        · rintro (h | h | h) <;> simp [h]
+
+theorem mem_sortDocs (rev : Bool) (y : Doc) : ∀ l : List Doc, y ∈ sortDocs rev l ↔ y ∈ l
+  | [] => by simp [sortDocs]
+  | x :: xs => by simp [sortDocs, mem_insertDoc, mem_sortDocs rev y xs]
+
+theorem sortDocs_ne_nil (rev : Bool) : ∀ l : List Doc, l ≠ [] → sortDocs rev l ≠ []
+  | [], h => absurd rfl h
+  | x :: xs, _ => by
+      intro hc
+      have : x ∈ sortDocs rev (x :: xs) := (mem_sortDocs rev x _).mpr (by simp)
+      rw [hc] at this
+      cases this
+
+/-! ### `get_neg_product` on the fragment -/
+
+theorem cFragM_head (m : Bool) (e : Expr) (h : cFragM m e = true) :
+    (∃ n, e = .const (.int n)) ∨ e.isNode = true := by
+  cases e with
+  | const c => cases c <;> simp [cFragM] at h; exact Or.inl ⟨_, rfl⟩
+  | tuple cs => simp [cFragM] at h
+  | list cs => simp [cFragM] at h
+  | _ => exact Or.inr rfl
+
+theorem plusOneIsZero_frag (m : Bool) (c0 : Expr) (h : cFragM m c0 = true) :
+    plusOneIsZero c0 = .ok (isNegOneE c0) := by
+  rcases cFragM_head m c0 h with ⟨n, rfl⟩ | hn
+  · simp only [plusOneIsZero, isNegOneE, pure, Except.pure]
+    have : (n + 1 == 0) = (n == -1) := by
+      rw [Bool.eq_iff_iff]
+      simp only [beq_iff_eq]
+      omega
+    rw [this]
+  · rw [plusOneIsZero_node c0 hn]
+    cases c0 <;> simp [Expr.isNode] at hn <;> rfl
+
+/-- `get_neg_product` on the fragment: exactly the products `-1 * …` -/
+theorem negProd_frag (m : Bool) (ch : Expr) (h : cFragM m ch = true) :
+    negProd ch = .ok (if negShape ch then some (negBody ch) else none) := by
+  cases ch with
+  | nary op cs =>
+    cases op with
+    | prod =>
+      match cs, h with
+      | c0 :: c1 :: rest, h =>
+        simp only [cFragM, Bool.and_eq_true] at h
+        have h0 := plusOneIsZero_frag m c0 h.1.1
+        simp only [negProd, h0]
+        cases c0 with
+        | const c =>
+          cases c with
+          | int n =>
+            by_cases hn : n = -1
+            · subst hn
+              cases rest <;> simp [isNegOneE, negShape, negBody, pure, Except.pure]
+            · have hf : (n == -1) = false := by simp [hn]
+              simp [isNegOneE, negShape, hf, pure, Except.pure]
+          | _ => simp [isNegOneE, negShape, pure, Except.pure]
+        | _ => simp [isNegOneE, negShape, pure, Except.pure]
+    | _ => simp [negProd, negShape, pure, Except.pure]
+  | _ => simp [negProd, negShape, pure, Except.pure]
+
+theorem cFragMP_L (m : Bool) : ∀ cs : List Expr, cFragMP m cs = true → cFragML m cs = true
+  | [], _ => rfl
+  | c :: cs, h => by
+      simp only [cFragMP, Bool.and_eq_true] at h
+      simp [cFragML, h.1.1, cFragMP_L m cs h.2]
+
+theorem cFragML_mem (m : Bool) : ∀ (l : List Expr), cFragML m l = true → ∀ x ∈ l, cFragM m x = true
+  | [], _, x, hx => by cases hx
+  | y :: ys, hl, x, hx => by
+      simp only [cFragML, Bool.and_eq_true] at hl
+      simp only [List.mem_cons] at hx
+      rcases hx with rfl | hx
+      · exact hl.1
+      · exact cFragML_mem m ys hl.2 x hx
+
+/-- the body of a `-1 * …` term of the fragment is in the fragment -/
+theorem negBody_frag (m : Bool) (ch : Expr) (h : cFragM m ch = true) (hn : negShape ch = true) :
+    cFragM m (negBody ch) = true := by
+  cases ch with
+  | nary op cs =>
+    cases op with
+    | prod =>
+      match cs, h, hn with
+      | .const (.int n) :: c1 :: rest, h, hn =>
+        simp only [cFragM, Bool.and_eq_true] at h
+        obtain ⟨_, hP⟩ := h
+        cases rest with
+        | nil =>
+          simp only [cFragMP, Bool.and_eq_true] at hP
+          simpa [negBody] using hP.1.1
+        | cons c2 rest' =>
+          simp only [negBody, cFragM]
+          simp only [cFragMP, Bool.and_eq_true] at hP
+          simp [hP.1.1, hP.1.2, cFragMP, hP.2]
+    | _ => simp [negShape] at hn
+  | _ => simp [negShape] at hn
+
+/-- … and means the negated value -/
+theorem negBody_val (env : Env) (m : Bool) (ch : Expr) (h : cFragM m ch = true)
+    (hn : negShape ch = true) (w : CVal) (hv : denV env ch = some w) :
+    ∃ w', denV env (negBody ch) = some w' ∧ w'.toInt = -w.toInt := by
+  cases ch with
+  | nary op cs =>
+    cases op with
+    | prod =>
+      match cs, h, hn, hv with
+      | .const (.int n) :: c1 :: rest, h, hn, hv =>
+        simp only [negShape, beq_iff_eq] at hn
+        subst hn
+        simp only [denV, denVL] at hv
+        cases h1 : denV env c1 with
+        | none => simp [h1] at hv
+        | some v1 =>
+          cases hr : denVL env rest with
+          | none => simp [h1, hr] at hv
+          | some vr =>
+            simp only [h1, hr, Option.map_some, Option.some.injEq] at hv
+            subst hv
+            cases rest with
+            | nil =>
+              simp only [denVL, Option.some.injEq] at hr
+              subst hr
+              refine ⟨v1, by simpa [negBody] using h1, ?_⟩
+              simp only [List.map_cons, List.map_nil, prodL, toInt_i]
+              omega
+            | cons c2 rest' =>
+              simp only [denVL] at hr
+              cases h2 : denV env c2 with
+              | none => simp [h2] at hr
+              | some v2 =>
+                cases hr' : denVL env rest' with
+                | none => simp [h2, hr'] at hr
+                | some vr' =>
+                  simp only [h2, hr', Option.some.injEq] at hr
+                  subst hr
+                  refine ⟨.i (prodL (List.map CVal.toInt (v1 :: v2 :: vr'))),
+                    by simp only [negBody, denV, denVL, h1, h2, hr', Option.map_some], ?_⟩
+                  simp [prodL, Int.neg_mul]
+    | _ => simp [negShape] at hn
+  | _ => simp [negShape] at hn
+
+/-- the arithmetic fragment contains none of the operators of the lower levels -/
+theorem kind_ok (S : PrintPrec) (m : Bool) (hm : m = true → PrecB S) (e : Expr)
+    (h : cFragM m e = true) : PrecB S ∨ newKind e = false := by
+  cases m with
+  | true => exact Or.inl (hm rfl)
+  | false =>
+    refine Or.inr ?_
+    cases e with
+    | nary op cs =>
+      cases op <;> first
+        | rfl
+        | (match cs, h with
+           | [], h => simp [cFragM] at h
+           | [_], h => simp [cFragM] at h
+           | _ :: _ :: _, h => simp [cFragM] at h)
+    | bin op a b => cases op <;> first | rfl | simp [cFragM] at h
+    | cmp o a b => simp [cFragM] at h
+    | _ => rfl
 
 /-! the planned calls of a sum -/
 
 def sumItems (S : PrintPrec) (cs : List Expr) : List (Expr × Nat) :=
   cs.map fun ch => if negShape ch then (negBody ch, S.product) else (ch, S.sum)
 
-theorem sumPlan_frag (S : PrintPrec) : ∀ cs : List Expr, intFragL cs = true →
+theorem sumPlan_frag (S : PrintPrec) (m : Bool) : ∀ cs : List Expr, cFragML m cs = true →
     sumPlan S cs = .ok (sumItems S cs)
   | [], _ => rfl
   | c :: cs, h => by
-      simp only [intFragL, Bool.and_eq_true] at h
-      simp only [sumPlan, negProd_frag c h.1, sumPlan_frag S cs h.2, sumItems, List.map_cons]
+      simp only [cFragML, Bool.and_eq_true] at h
+      simp only [sumPlan, negProd_frag m c h.1, sumPlan_frag S m cs h.2, sumItems, List.map_cons]
       cases negShape c <;> simp [bind, Except.bind, pure, Except.pure]
 
-/-- the values of the planned calls: the negated value for a `-1 * …` term -/
-def signed : List Expr → List Int → List Int
-  | ch :: cs, v :: vs => (if negShape ch then -v else v) :: signed cs vs
-  | _, _ => []
+theorem sumItems_frag (S : PrintPrec) (m : Bool) : ∀ cs : List Expr, cFragML m cs = true →
+    ∀ it ∈ sumItems S cs, cFragM m it.1 = true
+  | [], _, it, hit => by simp [sumItems] at hit
+  | c :: cs, h, it, hit => by
+      simp only [cFragML, Bool.and_eq_true] at h
+      simp only [sumItems, List.map_cons, List.mem_cons] at hit
+      rcases hit with rfl | hit
+      · cases hn : negShape c with
+        | true => simpa using negBody_frag m c h.1 hn
+        | false => simpa using h.1
+      · exact sumItems_frag S m cs h.2 it hit
 
-theorem sumItems_vals (env : Env) (S : PrintPrec) : ∀ (cs : List Expr) (vs : List Int),
-    intFragL cs = true → denNL env cs = some vs →
-    (∀ it ∈ sumItems S cs, intFrag it.1 = true) ∧
-      denNL env ((sumItems S cs).map (·.1)) = some (signed cs vs)
-  | [], vs, _, hv => by
-      simp only [denNL, Option.some.injEq] at hv
-      subst hv
-      simp [sumItems, denNL, signed]
-  | c :: cs, vs, h, hv => by
-      simp only [intFragL, Bool.and_eq_true] at h
-      simp only [denNL] at hv
-      cases hc : denN env c with
-      | none => simp [hc] at hv
-      | some v =>
-        cases hcs : denNL env cs with
-        | none => simp [hc, hcs] at hv
-        | some ws =>
-          simp only [hc, hcs, Option.some.injEq] at hv
-          subst hv
-          obtain ⟨ih1, ih2⟩ := sumItems_vals env S cs ws h.2 hcs
-          simp only [sumItems, List.map_cons, List.mem_cons, signed] at ih1 ih2 ⊢
-          cases hn : negShape c with
-          | true =>
-            obtain ⟨hb1, hb2⟩ := negBody_val env c h.1 hn v hc
-            refine ⟨?_, ?_⟩
-            · rintro it (rfl | hit)
-              · simpa using hb1
-              · exact ih1 it hit
-            · simp only [if_true, denNL, hb2]
-              rw [ih2]
-          | false =>
-            refine ⟨?_, ?_⟩
-            · rintro it (rfl | hit)
-              · simpa using h.1
-              · exact ih1 it hit
-            · simp only [Bool.false_eq_true, if_false, denNL, hc]
-              rw [ih2]
-
-theorem sum_split_facts (env : Env) (S : PrintPrec) (hS : S.sum < S.product) :
-    ∀ (cs : List Expr) (ds : List Doc) (vs : List Int), intFragL cs = true →
-    denNL env cs = some vs → AllFacts env S (sumItems S cs) ds (signed cs vs) →
-    ∃ P N, sumC env (sumSplit cs ds).1 = some P ∧ sumC env (sumSplit cs ds).2 = some N ∧
-      P - N = sumL vs ∧ (∀ x ∈ (sumSplit cs ds).2, x.addBare = false) ∧
-      (∀ c cs', cs = c :: cs' → negShape c = false → (sumSplit cs ds).1 ≠ [])
+theorem sum_split_val (env : Env) (S : PrintPrec) (m : Bool) :
+    ∀ (cs : List Expr) (ds : List Doc) (vs : List CVal), cFragML m cs = true →
+    denVL env cs = some vs → AllOK env S (sumItems S cs) ds →
+    ∃ P N, sumT env (sumSplit cs ds).1 = some P ∧ sumT env (sumSplit cs ds).2 = some N ∧
+      P - N = sumL (vs.map CVal.toInt)
   | [], ds, vs, _, hv, _ => by
-      simp only [denNL, Option.some.injEq] at hv
+      simp only [denVL, Option.some.injEq] at hv
       subst hv
-      exact ⟨0, 0, by simp [sumSplit, sumC], by simp [sumSplit, sumC], by simp [sumL],
-        by simp [sumSplit], by simp⟩
-  | c :: cs, [], vs, _, _, hf => by simp [sumItems, AllFacts] at hf
+      exact ⟨0, 0, by simp [sumSplit, sumT], by simp [sumSplit, sumT], by simp [sumL]⟩
+  | c :: cs, [], vs, _, _, hf => by simp [sumItems, AllOK] at hf
   | c :: cs, d :: ds, vs, h, hv, hf => by
-      simp only [intFragL, Bool.and_eq_true] at h
-      simp only [denNL] at hv
-      cases hc : denN env c with
+      simp only [cFragML, Bool.and_eq_true] at h
+      simp only [denVL] at hv
+      cases hc : denV env c with
       | none => simp [hc] at hv
       | some v =>
-        cases hcs : denNL env cs with
+        cases hcs : denVL env cs with
         | none => simp [hc, hcs] at hv
         | some ws =>
           simp only [hc, hcs, Option.some.injEq] at hv
           subst hv
-          simp only [sumItems, List.map_cons, signed, AllFacts] at hf
+          simp only [sumItems, List.map_cons, AllOK] at hf
           obtain ⟨f1, f2⟩ := hf
-          obtain ⟨P, N, hP, hN, hPN, hB, _⟩ := sum_split_facts env S hS cs ds ws h.2 hcs f2
-          simp only [sumSplit, negProd_frag c h.1]
+          obtain ⟨P, N, hP, hN, hPN⟩ := sum_split_val env S m cs ds ws h.2 hcs f2
+          simp only [sumSplit, negProd_frag m c h.1]
           cases hn : negShape c with
           | true =>
             simp only [hn, if_true] at f1
-            refine ⟨P, -v + N, by simpa using hP, ?_, ?_, ?_, ?_⟩
-            · simp [sumC, f1.val, hN]
-            · simp only [sumL]; omega
-            · intro x hx
-              simp only [if_true, List.mem_cons] at hx
-              rcases hx with rfl | hx
-              · exact f1.notAdd hS
-              · exact hB x hx
-            · intro c' cs' he hc'
-              simp only [List.cons.injEq] at he
-              rw [← he.1, hn] at hc'
-              cases hc'
+            obtain ⟨w', hw1, hw2⟩ := negBody_val env m c h.1 hn v hc
+            have hd := f1.2 w' hw1
+            refine ⟨P, -v.toInt + N, by simpa using hP, ?_, ?_⟩
+            · simp [sumT, hd, hN, hw2]
+            · simp only [List.map_cons, sumL]; omega
           | false =>
             simp only [hn, Bool.false_eq_true, if_false] at f1
-            refine ⟨v + P, N, ?_, by simpa using hN, ?_, ?_, ?_⟩
-            · simp [sumC, f1.val, hP]
-            · simp only [sumL]; omega
-            · intro x hx
-              exact hB x (by simpa using hx)
-            · intro _ _ _ _
-              simp
+            have hd := f1.2 v hc
+            refine ⟨v.toInt + P, N, ?_, by simpa using hN, ?_⟩
+            · simp [sumT, hd, hP]
+            · simp only [List.map_cons, sumL]; omega
 
-theorem allFacts_prod (env : Env) (S : PrintPrec) (hS : S.sum < S.product) :
-    ∀ (cs : List Expr) (ds : List Doc) (vs : List Int), intFragP cs = true →
-    AllFacts env S (cs.map (·, S.product)) ds vs →
-    prodC env ds = some (prodL vs) ∧ ds.length = cs.length ∧
-      ∀ x ∈ ds, x.addBare = false ∧ mulSafe x = true
-  | [], [], [], _, _ => by simp [prodC, prodL]
-  | [], [], _ :: _, _, hf => by simp [AllFacts] at hf
-  | [], _ :: _, _, _, hf => by simp [AllFacts] at hf
-  | _ :: _, [], _, _, hf => by simp [AllFacts] at hf
-  | _ :: _, _ :: _, [], _, hf => by simp [AllFacts] at hf
-  | c :: cs, d :: ds, v :: vs, h, hf => by
-      simp only [intFragP, Bool.and_eq_true, Bool.not_eq_true'] at h
-      simp only [List.map_cons, AllFacts] at hf
+theorem sum_split_shape (env : Env) (S : PrintPrec) (m : Bool) (hA : PrecA S)
+    (hm : m = true → PrecB S) :
+    ∀ (cs : List Expr) (ds : List Doc), cFragML m cs = true → AllOK env S (sumItems S cs) ds →
+    (∀ x ∈ (sumSplit cs ds).1, cwf x = true ∧ ∀ o ∈ exposedOps x, 9 ≤ o.prec) ∧
+    (∀ x ∈ (sumSplit cs ds).2, cwf x = true ∧ ∀ o ∈ exposedOps x, 10 ≤ o.prec) ∧
+    (∀ c cs', cs = c :: cs' → negShape c = false → (sumSplit cs ds).1 ≠ [])
+  | [], ds, _, _ => by simp [sumSplit]
+  | c :: cs, [], _, hf => by simp [sumItems, AllOK] at hf
+  | c :: cs, d :: ds, h, hf => by
+      simp only [cFragML, Bool.and_eq_true] at h
+      simp only [sumItems, List.map_cons, AllOK] at hf
       obtain ⟨f1, f2⟩ := hf
-      obtain ⟨a, b, c'⟩ := allFacts_prod env S hS cs ds vs h.2 f2
-      refine ⟨by simp [prodC, f1.val, a, prodL], by simp [b], ?_⟩
-      intro x hx
-      simp only [List.mem_cons] at hx
-      rcases hx with rfl | hx
-      · exact ⟨f1.notAdd hS, f1.safe hS h.1.2⟩
-      · exact c' x hx
+      obtain ⟨hp, hn', _⟩ := sum_split_shape env S m hA hm cs ds h.2 f2
+      simp only [sumSplit, negProd_frag m c h.1]
+      cases hn : negShape c with
+      | true =>
+        simp only [hn, if_true] at f1
+        have hk := kind_ok S m hm _ (negBody_frag m c h.1 hn)
+        have hctx := (ctx_all S hA (negBody c) hk).2.1
+        refine ⟨by simpa using hp, ?_, ?_⟩
+        · intro x hx
+          simp only [if_true, List.mem_cons] at hx
+          rcases hx with rfl | hx
+          · exact ⟨f1.1.wf, fun o ho => Nat.le_trans hctx (f1.1.expo o ho)⟩
+          · exact hn' x hx
+        · intro c' cs' he hc'
+          simp only [List.cons.injEq] at he
+          rw [← he.1, hn] at hc'
+          cases hc'
+      | false =>
+        simp only [hn, Bool.false_eq_true, if_false] at f1
+        have hk := kind_ok S m hm _ h.1
+        have hctx := (ctx_all S hA c hk).1
+        refine ⟨?_, by simpa using hn', ?_⟩
+        · intro x hx
+          simp only [Bool.false_eq_true, if_false, List.mem_cons] at hx
+          rcases hx with rfl | hx
+          · exact ⟨f1.1.wf, fun o ho => Nat.le_trans hctx (f1.1.expo o ho)⟩
+          · exact hp x hx
+        · intro _ _ _ _
+          simp
 
-
-theorem printAll_nil {f : Printer} {st : CSt} {ds : List Doc} {refs : List String} {st' : CSt}
-    (h : printAll f st [] = .ok (ds, refs, st')) : ds = [] := by
-  simp only [printAll, pure, Except.pure, Except.ok.injEq, Prod.mk.injEq] at h
-  exact h.1.symm
+/-- the operands of a product -/
+theorem allOK_prod (env : Env) (S : PrintPrec) (m : Bool) (hA : PrecA S)
+    (hm : m = true → PrecB S) :
+    ∀ (cs : List Expr) (ds : List Doc), cFragMP m cs = true →
+    AllOK env S (cs.map (·, S.product)) ds →
+    ds.length = cs.length ∧
+    (∀ x ∈ ds, cwf x = true ∧ ∀ o ∈ exposedOps x, rightOK .times o = true) ∧
+    (∀ vs, denVL env cs = some vs → prodT env ds = some (prodL (vs.map CVal.toInt)))
+  | [], [], _, _ => by
+      refine ⟨rfl, by simp, ?_⟩
+      intro vs hv
+      simp only [denVL, Option.some.injEq] at hv
+      subst hv
+      simp [prodT, prodL]
+  | [], _ :: _, _, hf => by simp [AllOK] at hf
+  | _ :: _, [], _, hf => by simp [AllOK] at hf
+  | c :: cs, d :: ds, h, hf => by
+      simp only [cFragMP, Bool.and_eq_true, Bool.not_eq_true'] at h
+      simp only [List.map_cons, AllOK] at hf
+      obtain ⟨f1, f2⟩ := hf
+      obtain ⟨a, b, c'⟩ := allOK_prod env S m hA hm cs ds h.2 f2
+      have hk := kind_ok S m hm _ h.1.1
+      have hctx := (ctx_all S hA c hk).2.1
+      refine ⟨by simp [a], ?_, ?_⟩
+      · intro x hx
+        simp only [List.mem_cons] at hx
+        rcases hx with rfl | hx
+        · refine ⟨f1.1.wf, fun o ho => rightOK_times (Nat.le_trans hctx (f1.1.expo o ho)) ?_⟩
+          exact f1.1.safe hA.1 h.1.2 o ho
+        · exact b x hx
+      · intro vs hv
+        simp only [denVL] at hv
+        cases hc : denV env c with
+        | none => simp [hc] at hv
+        | some v =>
+          cases hcs : denVL env cs with
+          | none => simp [hc, hcs] at hv
+          | some ws =>
+            simp only [hc, hcs, Option.some.injEq] at hv
+            subst hv
+            simp [prodT, f1.2 v hc, c' ws hcs, prodL]
 
 theorem powPlan_var_two (x : String) :
     ∃ r, powPlan (.var x) (.const (.int 2)) = .ok (.square r) ∧
@@ -975,231 +1026,801 @@ theorem powPlan_var_two (x : String) :
     Expr.isNode, mulD, Expr.isValidOperand, Expr.isOne, Expr.isZero, Expr.truthy, pure,
     Except.pure]
 
-theorem facts_paren {env : Env} {S : PrintPrec} {e : Expr} {k : Nat} {d : Doc} {v : Int}
-    (h : denC env d = some v) : Facts env S e k (.paren d) v :=
-  ⟨by simpa [denC] using h, fun _ => rfl, fun _ _ => rfl, fun _ _ => rfl, fun _ => rfl⟩
+theorem shape_paren {S : PrintPrec} {e : Expr} {k : Nat} {d : Doc} (h : cwf d = true) :
+    Shape S e k (.paren d) :=
+  ⟨by simpa [cwf] using h, fun o ho => by simp [exposedOps] at ho,
+    fun _ _ o ho => by simp [exposedOps] at ho⟩
 
-/-- **the C value of the printed structure is the fragment's meaning**, for every allocator state,
-enclosing precedence and recursion budget -/
-theorem value_core (env : Env) (S : PrintPrec) (hS : S.sum < S.product ∧ S.product < S.power) :
-    ∀ fuel, GoodV env S (ccodeE S fuel) := by
+theorem rightOK_times_inv {o : COp} (h : rightOK .times o = true) (hp : o.prec = 10) :
+    o = .times := by
+  cases o with
+  | cmp c => cases c <;> simp [COp.prec] at hp
+  | _ => simp_all [COp.prec, rightOK, assocPair]
+
+theorem cmp_prec (o : CmpOp) (a b : Expr) : (COp.cmp o).prec = cRoot (.cmp o a b) ∧
+    6 ≤ (COp.cmp o).prec ∧ (COp.cmp o).prec ≤ 7 := by
+  cases o <;> simp [COp.prec, cRoot]
+
+/-- a divisor that is neither multiplicative nor a power is printed as a primary -/
+theorem simple_root (S : PrintPrec) (hA : PrecA S) (b : Expr) (h : PrecB S ∨ newKind b = false)
+    (h1 : isMultiplicative b = false) (h2 : isPow b = false) : 11 ≤ cRootAt S S.product b := by
+  obtain ⟨a1, a2⟩ := hA
+  have fin : ∀ p r, pyPrec S b = p → cRoot b = r → (r = 11 ∨ p < S.product) →
+      11 ≤ cRootAt S S.product b := by
+    intro p r hp hr hc
+    simp only [cRootAt, hp, hr]
+    split <;> omega
+  have low : PrecB S → ∀ p, (p = S.band ∨ p = S.bxor ∨ p = S.bor ∨ p = S.land ∨ p = S.lor ∨
+      p = S.shift ∨ p = S.comparison) → p < S.product := by
+    intro hB p hp
+    obtain ⟨b1, b2, b3, b4, b5, b6, b7, b8⟩ := hB
+    omega
+  cases b with
+  | nary op cs =>
+    cases op
+    · exact fin _ _ rfl rfl (Or.inr a1)
+    · simp [isMultiplicative] at h1
+    · exact fin _ _ rfl rfl (Or.inr (low (by simpa [newKind] using h) _ (Or.inr (Or.inr (Or.inl rfl)))))
+    · exact fin _ _ rfl rfl (Or.inr (low (by simpa [newKind] using h) _ (Or.inr (Or.inl rfl))))
+    · exact fin _ _ rfl rfl (Or.inr (low (by simpa [newKind] using h) _ (Or.inl rfl)))
+    · exact fin _ _ rfl rfl (Or.inr (low (by simpa [newKind] using h) _ (Or.inr (Or.inr (Or.inr (Or.inr (Or.inl rfl)))))))
+    · exact fin _ _ rfl rfl (Or.inr (low (by simpa [newKind] using h) _ (Or.inr (Or.inr (Or.inr (Or.inl rfl))))))
+    · exact fin _ _ rfl rfl (Or.inl rfl)
+    · exact fin _ _ rfl rfl (Or.inl rfl)
+  | bin op x y =>
+    cases op
+    · exact fin _ _ rfl rfl (Or.inl rfl)
+    · exact fin _ _ rfl rfl (Or.inl rfl)
+    · simp [isMultiplicative] at h1
+    · simp [isPow] at h2
+    · exact fin _ _ rfl rfl (Or.inr (low (by simpa [newKind] using h) _ (Or.inr (Or.inr (Or.inr (Or.inr (Or.inr (Or.inl rfl))))))))
+    · exact fin _ _ rfl rfl (Or.inr (low (by simpa [newKind] using h) _ (Or.inr (Or.inr (Or.inr (Or.inr (Or.inr (Or.inl rfl))))))))
+  | cmp o x y =>
+    have hB : PrecB S := by simpa [newKind] using h
+    cases o <;> exact fin _ _ rfl rfl (Or.inr (low hB _
+      (Or.inr (Or.inr (Or.inr (Or.inr (Or.inr (Or.inr rfl))))))))
+  | _ => exact fin _ _ rfl rfl (Or.inl rfl)
+
+theorem docOK_parenIf (env : Env) (S : PrintPrec) (e : Expr) (enc lvl : Nat) (X : Doc)
+    (hw : cwf X = true)
+    (hx : enc ≤ lvl → ∀ o ∈ exposedOps X, cRootAt S enc e ≤ o.prec)
+    (hs : S.sum < enc → enc ≤ lvl → isRem e = false → ∀ o ∈ exposedOps X, o.prec = 10 → o = .times)
+    (hv : ∀ w, denV env e = some w → denT env X = some w.toInt) :
+    DocOK env S (e, enc) (parenIfD X enc lvl) := by
+  simp only [parenIfD]
+  split
+  · exact ⟨shape_paren hw, fun w hw' => by simpa [denT] using hv w hw'⟩
+  · rename_i hc
+    have hle : enc ≤ lvl := Nat.le_of_not_lt hc
+    exact ⟨⟨hw, hx hle, fun h1 => hs h1 hle⟩, hv⟩
+
+/-- operands printed at one level `lvl` whose context needs C level `r` -/
+theorem allOK_level (env : Env) (S : PrintPrec) (m : Bool) (hm : m = true → PrecB S) (lvl r : Nat)
+    (hb : ∀ c, (PrecB S ∨ newKind c = false) → r ≤ cRootAt S lvl c) :
+    ∀ (cs : List Expr) (ds : List Doc), cFragML m cs = true → AllOK env S (cs.map (·, lvl)) ds →
+    ds.length = cs.length ∧ ∀ x ∈ ds, cwf x = true ∧ ∀ o ∈ exposedOps x, r ≤ o.prec
+  | [], [], _, _ => by simp
+  | [], _ :: _, _, hf => by simp [AllOK] at hf
+  | _ :: _, [], _, hf => by simp [AllOK] at hf
+  | c :: cs, d :: ds, h, hf => by
+      simp only [cFragML, Bool.and_eq_true] at h
+      simp only [List.map_cons, AllOK] at hf
+      obtain ⟨f1, f2⟩ := hf
+      obtain ⟨a, b⟩ := allOK_level env S m hm lvl r hb cs ds h.2 f2
+      refine ⟨by simp [a], ?_⟩
+      intro x hx
+      simp only [List.mem_cons] at hx
+      rcases hx with rfl | hx
+      · exact ⟨f1.1.wf, fun o ho => Nat.le_trans (hb c (kind_ok S m hm c h.1)) (f1.1.expo o ho)⟩
+      · exact b x hx
+
+/-- the C operator of a bitwise node -/
+def bitCOp : NaryOp → COp
+  | .band => .band
+  | .bxor => .bxor
+  | _ => .bor
+
+theorem applyL_bit (op : NaryOp) (hop : op = .band ∨ op = .bxor ∨ op = .bor) (x y r : CVal)
+    (h : bitV op x y = some r) :
+    (bitCOp op).applyL (some x.toInt) (some y.toInt) = some r.toInt := by
+  obtain ⟨h1, h2, h3⟩ := bitV_toInt op x y r h
+  have n1 : ¬ (x.toInt < 0 ∨ y.toInt < 0) := by omega
+  rcases hop with rfl | rfl | rfl <;> simp [bitCOp, COp.applyL, COp.apply, n1, h3, bitNat]
+
+theorem fold_bit (env : Env) (S : PrintPrec) (lvl : Nat) (op : NaryOp)
+    (hop : op = .band ∨ op = .bxor ∨ op = .bor) :
+    ∀ (cs : List Expr) (ds : List Doc) (acc r : CVal), AllOK env S (cs.map (·, lvl)) ds →
+    denVBit env op acc cs = some r →
+    ds.foldl (fun a x => (bitCOp op).applyL a (denT env x)) (some acc.toInt) = some r.toInt
+  | [], [], acc, r, _, h => by
+      simp only [denVBit, Option.some.injEq] at h
+      subst h
+      rfl
+  | [], _ :: _, _, _, hf, _ => by simp [AllOK] at hf
+  | _ :: _, [], _, _, hf, _ => by simp [AllOK] at hf
+  | c :: cs, d :: ds, acc, r, hf, h => by
+      simp only [List.map_cons, AllOK] at hf
+      obtain ⟨f1, f2⟩ := hf
+      simp only [denVBit] at h
+      cases hc : denV env c with
+      | none => simp [hc] at h
+      | some w =>
+        simp only [hc] at h
+        cases hb : bitV op acc w with
+        | none => simp [hb] at h
+        | some acc' =>
+          simp only [hb] at h
+          simp only [List.foldl_cons, f1.2 w hc, applyL_bit op hop acc w acc' hb]
+          exact fold_bit env S lvl op hop cs ds acc' r f2 h
+
+theorem fold_land_zero (env : Env) : ∀ ds : List Doc,
+    ds.foldl (fun a x => COp.applyL .land a (denT env x)) (some 0) = some 0
+  | [] => rfl
+  | d :: ds => by
+      simp only [List.foldl_cons]
+      have : COp.applyL .land (some 0) (denT env d) = some 0 := by simp [COp.applyL]
+      rw [this]
+      exact fold_land_zero env ds
+
+theorem fold_land (env : Env) (S : PrintPrec) (lvl : Nat) :
+    ∀ (cs : List Expr) (ds : List Doc) (a : Int) (r : CVal), AllOK env S (cs.map (·, lvl)) ds →
+    cs ≠ [] → a ≠ 0 → denVAll env cs = some r →
+    ds.foldl (fun a x => COp.applyL .land a (denT env x)) (some a) = some r.toInt
+  | [], _, _, _, _, hne, _, _ => absurd rfl hne
+  | _ :: _, [], _, _, hf, _, _, _ => by simp [AllOK] at hf
+  | c :: cs, d :: ds, a, r, hf, _, ha, h => by
+      simp only [List.map_cons, AllOK] at hf
+      obtain ⟨f1, f2⟩ := hf
+      simp only [denVAll] at h
+      cases hc : denV env c with
+      | none => simp [hc] at h
+      | some w =>
+        simp only [hc] at h
+        simp only [List.foldl_cons, f1.2 w hc]
+        by_cases hw : w.toInt = 0
+        · simp only [hw, if_true, Option.some.injEq] at h
+          subst h
+          have : COp.applyL .land (some a) (some 0) = some 0 := by simp [COp.applyL, ha, c14B2I]
+          rw [hw, this]
+          exact fold_land_zero env ds
+        · simp only [hw, if_false] at h
+          have h1 : COp.applyL .land (some a) (some w.toInt) = some 1 := by
+            simp [COp.applyL, ha, hw, c14B2I]
+          rw [h1]
+          cases cs with
+          | nil =>
+            match ds, f2 with
+            | [], _ =>
+              simp only [denVAll, Option.some.injEq] at h
+              subst h
+              rfl
+          | cons c' rest =>
+            exact fold_land env S lvl (c' :: rest) ds 1 r f2 (by simp) (by decide) h
+
+theorem fold_lor_one (env : Env) : ∀ (ds : List Doc) (a : Int), a ≠ 0 → ds ≠ [] →
+    ds.foldl (fun a x => COp.applyL .lor a (denT env x)) (some a) = some 1
+  | [], _, _, hne => absurd rfl hne
+  | d :: ds, a, ha, _ => by
+      simp only [List.foldl_cons]
+      have : COp.applyL .lor (some a) (denT env d) = some 1 := by simp [COp.applyL, ha]
+      rw [this]
+      cases ds with
+      | nil => rfl
+      | cons d' ds' => exact fold_lor_one env (d' :: ds') 1 (by decide) (by simp)
+
+theorem fold_lor (env : Env) (S : PrintPrec) (lvl : Nat) :
+    ∀ (cs : List Expr) (ds : List Doc) (r : CVal), AllOK env S (cs.map (·, lvl)) ds →
+    cs ≠ [] → denVAny env cs = some r →
+    ds.foldl (fun a x => COp.applyL .lor a (denT env x)) (some 0) = some r.toInt
+  | [], _, _, _, hne, _ => absurd rfl hne
+  | _ :: _, [], _, hf, _, _ => by simp [AllOK] at hf
+  | c :: cs, d :: ds, r, hf, _, h => by
+      simp only [List.map_cons, AllOK] at hf
+      obtain ⟨f1, f2⟩ := hf
+      simp only [denVAny] at h
+      cases hc : denV env c with
+      | none => simp [hc] at h
+      | some w =>
+        simp only [hc] at h
+        simp only [List.foldl_cons, f1.2 w hc]
+        by_cases hw : w.toInt = 0
+        · simp only [hw, if_true] at h
+          have h1 : COp.applyL .lor (some 0) (some w.toInt) = some 0 := by
+            simp [COp.applyL, hw, c14B2I]
+          rw [h1]
+          cases cs with
+          | nil =>
+            match ds, f2 with
+            | [], _ =>
+              simp only [denVAny, Option.some.injEq] at h
+              subst h
+              rfl
+          | cons c' rest => exact fold_lor env S lvl (c' :: rest) ds r f2 (by simp) h
+        · simp only [hw, if_false, Option.some.injEq] at h
+          subst h
+          have h1 : COp.applyL .lor (some 0) (some w.toInt) = some 1 := by
+            simp [COp.applyL, hw, c14B2I]
+          rw [h1]
+          cases ds with
+          | nil => rfl
+          | cons d' ds' => exact fold_lor_one env (d' :: ds') 1 (by decide) (by simp)
+
+theorem exposed_paren_or (X : Doc) (c : Bool) : ∀ o ∈ exposedOps (if c then Doc.paren X else X),
+    o ∈ exposedOps X := by
+  intro o ho
+  cases c with
+  | true => simp [exposedOps] at ho
+  | false => simpa using ho
+
+theorem denT_forceWrap (env : Env) (e : Expr) (d : Doc) : denT env (forceWrapD e d) = denT env d := by
+  simp only [forceWrapD]; split <;> simp [denT]
+
+theorem cwf_forceWrap (e : Expr) (d : Doc) (h : cwf d = true) : cwf (forceWrapD e d) = true := by
+  simp only [forceWrapD]; split <;> simp [cwf, h]
+
+theorem exposed_forceWrap (e : Expr) (d : Doc) : ∀ o ∈ exposedOps (forceWrapD e d),
+    o ∈ exposedOps d ∧ isMultiplicative e = false := by
+  intro o ho
+  simp only [forceWrapD] at ho
+  split at ho
+  · simp [exposedOps] at ho
+  · rename_i hm
+    exact ⟨ho, by simpa using hm⟩
+
+/-- **the printed structure is well formed for C's grammar and its value is the fragment's
+meaning**, for every allocator state, enclosing precedence and recursion budget -/
+theorem value_core (env : Env) (S : PrintPrec) (m : Bool) (hA : PrecA S)
+    (hm : m = true → PrecB S) : ∀ fuel, GoodV env S m (ccodeE S fuel) := by
   intro fuel
   induction fuel with
   | zero =>
-    intro st e enc d refs st' v _ h
+    intro st e enc d refs st' _ h
     simp [ccodeE, throw, throwThe, MonadExceptOf.throw] at h
   | succ n ih =>
-    intro st e enc d refs st' v hfrag h hv
-    have hSP : S.sum < S.power := Nat.lt_trans hS.1 hS.2
+    intro st e enc d refs st' hfrag h
+    have ctx := fun (c : Expr) (hc : cFragM m c = true) => ctx_all S hA c (kind_ok S m hm c hc)
     cases e with
     | const c =>
       cases c with
-      | int m =>
+      | int k =>
         simp only [ccodeE] at h
         obtain ⟨pl, ds, hp, hpa, has⟩ := ccodeGeneric_ok h
-        simp only [plan, pure, Except.pure, Except.ok.injEq] at hp
-        subst hp
         simp only [assemble, constDoc, pure, Except.pure, Except.ok.injEq] at has
-        simp only [denN, Option.some.injEq] at hv
-        subst hv has
+        subst has
         split
-        · exact facts_paren (by simp [denC])
-        · rename_i hc
-          exact ⟨by simp [denC], fun _ => rfl, fun _ _ => rfl, fun _ _ => rfl, fun _ => rfl⟩
-      | _ => simp [intFrag] at hfrag
+        · exact ⟨shape_paren rfl, fun w hw => by
+            simp only [denV, Option.some.injEq] at hw; subst hw; rfl⟩
+        · exact ⟨⟨rfl, fun o ho => by simp [exposedOps] at ho,
+            fun _ _ o ho => by simp [exposedOps] at ho⟩, fun w hw => by
+            simp only [denV, Option.some.injEq] at hw; subst hw; rfl⟩
+      | _ => simp [cFragM] at hfrag
     | var x =>
       simp only [ccodeE] at h
       obtain ⟨pl, ds, hp, hpa, has⟩ := ccodeGeneric_ok h
       simp only [assemble, pure, Except.pure, Except.ok.injEq] at has
-      simp only [denN] at hv
       subst has
-      exact ⟨by simpa [denC] using hv, fun _ => rfl, fun _ _ => rfl, fun _ _ => rfl, fun _ => rfl⟩
+      refine ⟨⟨rfl, fun o ho => by simp [exposedOps] at ho,
+        fun _ _ o ho => by simp [exposedOps] at ho⟩, fun w hw => ?_⟩
+      simp only [denV] at hw
+      cases hx : envInt env x with
+      | none => simp [hx] at hw
+      | some k =>
+        simp only [hx, Option.map_some, Option.some.injEq] at hw
+        subst hw
+        simpa [denT] using hx
     | nary op cs =>
       cases op with
       | sum =>
         match cs, hfrag with
         | c :: cs', hfrag =>
-          simp only [intFrag, Bool.and_eq_true, Bool.not_eq_true'] at hfrag
-          have hL : intFragL (c :: cs') = true := by simp [intFragL, hfrag.1.1, hfrag.2]
+          simp only [cFragM, Bool.and_eq_true, Bool.not_eq_true'] at hfrag
+          have hL : cFragML m (c :: cs') = true := by simp [cFragML, hfrag.1.1, hfrag.2]
           simp only [ccodeE] at h
           obtain ⟨pl, ds, hp, hpa, has⟩ := ccodeGeneric_ok h
-          simp only [plan, sumPlan_frag S _ hL, Except.ok.injEq] at hp
+          simp only [plan, sumPlan_frag S m _ hL, Except.ok.injEq] at hp
           subst hp
-          simp only [denN] at hv
-          cases hvs : denNL env (c :: cs') with
-          | none => simp [hvs] at hv
-          | some vs =>
-            simp only [hvs, Option.map_some, Option.some.injEq] at hv
-            subst hv
-            obtain ⟨hi1, hi2⟩ := sumItems_vals env S _ vs hL hvs
-            have hall := printAll_facts env S _ ih _ st ds refs st' _ hi1 hpa hi2
-            obtain ⟨P, N, hP, hN, hPN, hB, hne⟩ := sum_split_facts env S hS.1 _ ds vs hL hvs hall
-            have hne' := hne c cs' rfl hfrag.1.2
-            simp only [assemble, pure, Except.pure, Except.ok.injEq] at has
-            have hpos : denC env (joinDocs .plus (sortDocs st.reverse (sumSplit (c :: cs') ds).1))
-                = some P :=
-              joinDocs_plus_val env _ P (by rw [sumC_sort]; exact hP)
-                (sortDocs_ne_nil _ _ hne')
-            have hall' := join_minus env (sortDocs st.reverse (sumSplit (c :: cs') ds).2) _ P N hpos
-              (by rw [sumC_sort]; exact hN)
-              (fun x hx => hB x ((mem_sortDocs _ _ _).mp hx))
-            rw [hPN] at hall'
-            subst has
-            simp only [parenIfD]
-            split
-            · exact facts_paren hall'
-            · rename_i hc
-              have hle : enc ≤ S.sum := Nat.le_of_not_lt hc
-              exact ⟨hall', fun hk => absurd hk (Nat.not_lt.mpr hle),
-                fun hk => absurd hk (Nat.not_lt.mpr hle),
-                fun hk => absurd hk (Nat.not_lt.mpr hle),
-                fun hk => absurd (Nat.lt_trans hS.1 hk) (Nat.not_lt.mpr hle)⟩
+          have hall := printAll_ok env S m _ ih _ st ds refs st' (sumItems_frag S m _ hL) hpa
+          obtain ⟨hps, hns, hne⟩ := sum_split_shape env S m hA hm _ ds hL hall
+          have hne' := hne c cs' rfl hfrag.1.2
+          simp only [assemble, pure, Except.pure, Except.ok.injEq] at has
+          subst has
+          -- the sorted positives
+          cases hsp : sortDocs st.reverse (sumSplit (c :: cs') ds).1 with
+          | nil => exact absurd hsp (sortDocs_ne_nil _ _ hne')
+          | cons p0 prest =>
+            have hpmem : ∀ x ∈ p0 :: prest, x ∈ (sumSplit (c :: cs') ds).1 := by
+              intro x hx
+              rw [← hsp] at hx
+              exact (mem_sortDocs _ _ _).mp hx
+            obtain ⟨j1, j2, j3⟩ := joinDocs_ok env .plus p0 prest (fun x hx =>
+              ⟨(hps x (hpmem x hx)).1, fun o ho => rightOK_plus ((hps x (hpmem x hx)).2 o ho)⟩)
+            have hpos9 : ∀ o ∈ exposedOps (joinDocs .plus (p0 :: prest)), 9 ≤ o.prec := by
+              intro o ho
+              rcases j2 o ho with rfl | ⟨x, hx, hox⟩
+              · decide
+              · exact (hps x (hpmem x hx)).2 o hox
+            obtain ⟨k1, k2, k3⟩ := foldl_bin env .minus
+              (sortDocs st.reverse (sumSplit (c :: cs') ds).2) (joinDocs .plus (p0 :: prest)) j1
+              hpos9 (fun x hx => ⟨(hns x ((mem_sortDocs _ _ _).mp hx)).1, fun o ho =>
+                rightOK_of_lt (Nat.lt_of_lt_of_le (by decide)
+                  ((hns x ((mem_sortDocs _ _ _).mp hx)).2 o ho))⟩)
+            refine docOK_parenIf env S _ enc S.sum _ k1 ?_ ?_ ?_
+            · intro hle o ho
+              simp only [cRootAt, pyPrec, hle, if_true, cRoot]
+              rcases k2 o ho with h1 | rfl | ⟨x, hx, hox⟩
+              · exact hpos9 o h1
+              · decide
+              · exact Nat.le_trans (by decide) ((hns x ((mem_sortDocs _ _ _).mp hx)).2 o hox)
+            · intro h1 h2
+              omega
+            · intro w hw
+              simp only [denV] at hw
+              cases hvs : denVL env (c :: cs') with
+              | none => simp [hvs] at hw
+              | some vs =>
+                simp only [hvs, Option.map_some, Option.some.injEq] at hw
+                subst hw
+                obtain ⟨P, N, hP, hN, hPN⟩ := sum_split_val env S m _ ds vs hL hvs hall
+                have hP' : sumT env (p0 :: prest) = some P := by
+                  rw [← hsp, sumT_sort]; exact hP
+                simp only [sumT] at hP'
+                cases h0 : denT env p0 with
+                | none => simp [h0] at hP'
+                | some a =>
+                  cases hr : sumT env prest with
+                  | none => simp [h0, hr] at hP'
+                  | some s =>
+                    simp only [h0, hr, Option.some.injEq] at hP'
+                    rw [k3, j3, h0, fold_plus env prest a s hr, hP',
+                      fold_minus env _ P N (by rw [sumT_sort]; exact hN), hPN]
+                    rfl
       | prod =>
         match cs, hfrag with
         | c1 :: c2 :: cs', hfrag =>
-          have hP : intFragP (c1 :: c2 :: cs') = true := by
-            simp only [intFrag, Bool.and_eq_true] at hfrag
-            simp only [intFragP, Bool.and_eq_true]
-            simp only [intFragP, Bool.and_eq_true] at hfrag
+          have hP : cFragMP m (c1 :: c2 :: cs') = true := by
+            simp only [cFragM, Bool.and_eq_true] at hfrag
+            simp only [cFragMP, Bool.and_eq_true]
+            simp only [cFragMP, Bool.and_eq_true] at hfrag
             exact ⟨hfrag.1, hfrag.2⟩
           simp only [ccodeE] at h
           obtain ⟨pl, ds, hp, hpa, has⟩ := ccodeGeneric_ok h
           simp only [plan, pure, Except.pure, Except.ok.injEq] at hp
           subst hp
-          simp only [denN] at hv
-          cases hvs : denNL env (c1 :: c2 :: cs') with
-          | none => simp [hvs] at hv
-          | some vs =>
-            simp only [hvs, Option.map_some, Option.some.injEq] at hv
-            subst hv
-            have hmap : ((c1 :: c2 :: cs').map (·, S.product)).map (·.1) = c1 :: c2 :: cs' := by
-              simp [List.map_map, Function.comp_def]
-            have hfr : ∀ it ∈ (c1 :: c2 :: cs').map (·, S.product), intFrag it.1 = true := by
-              intro it hit
-              obtain ⟨c, hc, rfl⟩ := List.mem_map.mp hit
-              have := intFragP_L _ hP
-              have hmem : ∀ (l : List Expr), intFragL l = true → ∀ x ∈ l, intFrag x = true := by
-                intro l
-                induction l with
-                | nil => intro _ x hx; cases hx
-                | cons y ys ihl =>
-                  intro hl x hx
-                  simp only [intFragL, Bool.and_eq_true] at hl
-                  simp only [List.mem_cons] at hx
-                  rcases hx with rfl | hx
-                  · exact hl.1
-                  · exact ihl hl.2 x hx
-              exact hmem _ this c hc
-            have hall := printAll_facts env S _ ih _ st ds refs st' vs hfr hpa (by rw [hmap]; exact hvs)
-            obtain ⟨hprod, hlen, hds⟩ := allFacts_prod env S hS.1 _ ds vs hP hall
-            have hne : ds ≠ [] := by
-              intro hc
-              rw [hc] at hlen
-              simp at hlen
-            obtain ⟨j1, j2, j3⟩ := joinDocs_times_val env ds _ hprod hne hds
+          have hfr : ∀ it ∈ (c1 :: c2 :: cs').map (·, S.product), cFragM m it.1 = true := by
+            intro it hit
+            obtain ⟨c, hc, rfl⟩ := List.mem_map.mp hit
+            exact cFragML_mem m _ (cFragMP_L m _ hP) c hc
+          have hall := printAll_ok env S m _ ih _ st ds refs st' hfr hpa
+          obtain ⟨hlen, hds, hval⟩ := allOK_prod env S m hA hm _ ds hP hall
+          simp only [assemble, pure, Except.pure, Except.ok.injEq] at has
+          subst has
+          cases ds with
+          | nil => simp at hlen
+          | cons d0 drest =>
+            obtain ⟨j1, j2, j3⟩ := joinDocs_ok env .times d0 drest hds
+            refine docOK_parenIf env S _ enc S.product _ j1 ?_ ?_ ?_
+            · intro hle o ho
+              simp only [cRootAt, pyPrec, hle, if_true, cRoot]
+              rcases j2 o ho with rfl | ⟨x, hx, hox⟩
+              · decide
+              · exact rightOK_le ((hds x hx).2 o hox)
+            · intro _ _ _ o ho hp10
+              rcases j2 o ho with rfl | ⟨x, hx, hox⟩
+              · rfl
+              · exact rightOK_times_inv ((hds x hx).2 o hox) hp10
+            · intro w hw
+              simp only [denV] at hw
+              cases hvs : denVL env (c1 :: c2 :: cs') with
+              | none => simp [hvs] at hw
+              | some vs =>
+                simp only [hvs, Option.map_some, Option.some.injEq] at hw
+                subst hw
+                have hp := hval vs hvs
+                simp only [prodT] at hp
+                cases h0 : denT env d0 with
+                | none => simp [h0] at hp
+                | some a =>
+                  cases hr : prodT env drest with
+                  | none => simp [h0, hr] at hp
+                  | some s =>
+                    simp only [h0, hr, Option.some.injEq] at hp
+                    rw [j3, h0, fold_times env drest a s hr, hp]
+                    rfl
+      | band =>
+        match cs, hfrag with
+        | c1 :: c2 :: cs', hfrag =>
+          simp only [cFragM, Bool.and_eq_true] at hfrag
+          have hmt : m = true := hfrag.1.1
+          have hB := hm hmt
+          have hL : cFragML m (c1 :: c2 :: cs') = true := by
+            simp only [cFragML, Bool.and_eq_true] at hfrag ⊢
+            exact ⟨hfrag.1.2, hfrag.2⟩
+          simp only [ccodeE] at h
+          obtain ⟨pl, ds, hp, hpa, has⟩ := ccodeGeneric_ok h
+          simp only [plan, pure, Except.pure, Except.ok.injEq] at hp
+          subst hp
+          have hfr : ∀ it ∈ (c1 :: c2 :: cs').map (·, S.band), cFragM m it.1 = true := by
+            intro it hit
+            obtain ⟨c, hc, rfl⟩ := List.mem_map.mp hit
+            exact cFragML_mem m _ hL c hc
+          have hall := printAll_ok env S m _ ih _ st ds refs st' hfr hpa
+          obtain ⟨hlen, hds⟩ := allOK_level env S m hm S.band 5
+            (fun c hk => ((ctx_all S hA c hk).2.2.2 hB).2.2.2.1) _ ds hL hall
+          simp only [assemble, pure, Except.pure, Except.ok.injEq] at has
+          subst has
+          cases ds with
+          | nil => simp at hlen
+          | cons d0 drest =>
+            obtain ⟨j1, j2, j3⟩ := joinDocs_ok env .band d0 drest (fun x hx =>
+              ⟨(hds x hx).1, fun o ho => rightOK_band ((hds x hx).2 o ho)⟩)
+            obtain ⟨b1, b2, b3, b4, b5, b6, b7, b8⟩ := hB
+            refine docOK_parenIf env S _ enc S.band _ j1 ?_ ?_ ?_
+            · intro hle o ho
+              simp only [cRootAt, pyPrec, hle, if_true, cRoot]
+              rcases j2 o ho with rfl | ⟨x, hx, hox⟩
+              · decide
+              · exact (hds x hx).2 o hox
+            · intro h1 h2
+              omega
+            · intro w hw
+              simp only [denV] at hw
+              simp only [List.map_cons, AllOK] at hall
+              cases h1 : denV env c1 with
+              | none => simp [h1] at hw
+              | some w1 =>
+                simp only [h1] at hw
+                rw [j3, hall.1.2 w1 h1]
+                exact fold_bit env S S.band .band (Or.inl rfl) (c2 :: cs') drest w1 w hall.2 hw
+      | bxor =>
+        match cs, hfrag with
+        | c1 :: c2 :: cs', hfrag =>
+          simp only [cFragM, Bool.and_eq_true] at hfrag
+          have hmt : m = true := hfrag.1.1
+          have hB := hm hmt
+          have hL : cFragML m (c1 :: c2 :: cs') = true := by
+            simp only [cFragML, Bool.and_eq_true] at hfrag ⊢
+            exact ⟨hfrag.1.2, hfrag.2⟩
+          simp only [ccodeE] at h
+          obtain ⟨pl, ds, hp, hpa, has⟩ := ccodeGeneric_ok h
+          simp only [plan, pure, Except.pure, Except.ok.injEq] at hp
+          subst hp
+          have hfr : ∀ it ∈ (c1 :: c2 :: cs').map (·, S.bxor), cFragM m it.1 = true := by
+            intro it hit
+            obtain ⟨c, hc, rfl⟩ := List.mem_map.mp hit
+            exact cFragML_mem m _ hL c hc
+          have hall := printAll_ok env S m _ ih _ st ds refs st' hfr hpa
+          obtain ⟨hlen, hds⟩ := allOK_level env S m hm S.bxor 4
+            (fun c hk => ((ctx_all S hA c hk).2.2.2 hB).2.2.2.2.1) _ ds hL hall
+          simp only [assemble, pure, Except.pure, Except.ok.injEq] at has
+          subst has
+          cases ds with
+          | nil => simp at hlen
+          | cons d0 drest =>
+            obtain ⟨j1, j2, j3⟩ := joinDocs_ok env .bxor d0 drest (fun x hx =>
+              ⟨(hds x hx).1, fun o ho => rightOK_bxor ((hds x hx).2 o ho)⟩)
+            obtain ⟨b1, b2, b3, b4, b5, b6, b7, b8⟩ := hB
+            refine docOK_parenIf env S _ enc S.bxor _ j1 ?_ ?_ ?_
+            · intro hle o ho
+              simp only [cRootAt, pyPrec, hle, if_true, cRoot]
+              rcases j2 o ho with rfl | ⟨x, hx, hox⟩
+              · decide
+              · exact (hds x hx).2 o hox
+            · intro h1 h2
+              omega
+            · intro w hw
+              simp only [denV] at hw
+              simp only [List.map_cons, AllOK] at hall
+              cases h1 : denV env c1 with
+              | none => simp [h1] at hw
+              | some w1 =>
+                simp only [h1] at hw
+                rw [j3, hall.1.2 w1 h1]
+                exact fold_bit env S S.bxor .bxor (Or.inr (Or.inl rfl)) (c2 :: cs') drest w1 w hall.2 hw
+      | bor =>
+        match cs, hfrag with
+        | c1 :: c2 :: cs', hfrag =>
+          simp only [cFragM, Bool.and_eq_true] at hfrag
+          have hmt : m = true := hfrag.1.1
+          have hB := hm hmt
+          have hL : cFragML m (c1 :: c2 :: cs') = true := by
+            simp only [cFragML, Bool.and_eq_true] at hfrag ⊢
+            exact ⟨hfrag.1.2, hfrag.2⟩
+          simp only [ccodeE] at h
+          obtain ⟨pl, ds, hp, hpa, has⟩ := ccodeGeneric_ok h
+          simp only [plan, pure, Except.pure, Except.ok.injEq] at hp
+          subst hp
+          have hfr : ∀ it ∈ (c1 :: c2 :: cs').map (·, S.bor), cFragM m it.1 = true := by
+            intro it hit
+            obtain ⟨c, hc, rfl⟩ := List.mem_map.mp hit
+            exact cFragML_mem m _ hL c hc
+          have hall := printAll_ok env S m _ ih _ st ds refs st' hfr hpa
+          obtain ⟨hlen, hds⟩ := allOK_level env S m hm S.bor 3
+            (fun c hk => ((ctx_all S hA c hk).2.2.2 hB).2.2.2.2.2.1) _ ds hL hall
+          simp only [assemble, pure, Except.pure, Except.ok.injEq] at has
+          subst has
+          cases ds with
+          | nil => simp at hlen
+          | cons d0 drest =>
+            obtain ⟨j1, j2, j3⟩ := joinDocs_ok env .bor d0 drest (fun x hx =>
+              ⟨(hds x hx).1, fun o ho => rightOK_bor ((hds x hx).2 o ho)⟩)
+            obtain ⟨b1, b2, b3, b4, b5, b6, b7, b8⟩ := hB
+            refine docOK_parenIf env S _ enc S.bor _ j1 ?_ ?_ ?_
+            · intro hle o ho
+              simp only [cRootAt, pyPrec, hle, if_true, cRoot]
+              rcases j2 o ho with rfl | ⟨x, hx, hox⟩
+              · decide
+              · exact (hds x hx).2 o hox
+            · intro h1 h2
+              omega
+            · intro w hw
+              simp only [denV] at hw
+              simp only [List.map_cons, AllOK] at hall
+              cases h1 : denV env c1 with
+              | none => simp [h1] at hw
+              | some w1 =>
+                simp only [h1] at hw
+                rw [j3, hall.1.2 w1 h1]
+                exact fold_bit env S S.bor .bor (Or.inr (Or.inr rfl)) (c2 :: cs') drest w1 w hall.2 hw
+      | land =>
+        match cs, hfrag with
+        | c1 :: c2 :: cs', hfrag =>
+          simp only [cFragM, Bool.and_eq_true] at hfrag
+          have hmt : m = true := hfrag.1.1
+          have hB := hm hmt
+          have hL : cFragML m (c1 :: c2 :: cs') = true := by
+            simp only [cFragML, Bool.and_eq_true] at hfrag ⊢
+            exact ⟨hfrag.1.2, hfrag.2⟩
+          simp only [ccodeE] at h
+          obtain ⟨pl, ds, hp, hpa, has⟩ := ccodeGeneric_ok h
+          simp only [plan, pure, Except.pure, Except.ok.injEq] at hp
+          subst hp
+          have hfr : ∀ it ∈ (c1 :: c2 :: cs').map (·, S.land), cFragM m it.1 = true := by
+            intro it hit
+            obtain ⟨c, hc, rfl⟩ := List.mem_map.mp hit
+            exact cFragML_mem m _ hL c hc
+          have hall := printAll_ok env S m _ ih _ st ds refs st' hfr hpa
+          obtain ⟨hlen, hds⟩ := allOK_level env S m hm S.land 2
+            (fun c hk => ((ctx_all S hA c hk).2.2.2 hB).2.2.2.2.2.2.1) _ ds hL hall
+          simp only [assemble, pure, Except.pure, Except.ok.injEq] at has
+          subst has
+          cases ds with
+          | nil => simp at hlen
+          | cons d0 drest =>
+            obtain ⟨j1, j2, j3⟩ := joinDocs_ok env .land d0 drest (fun x hx =>
+              ⟨(hds x hx).1, fun o ho => rightOK_land ((hds x hx).2 o ho)⟩)
+            obtain ⟨b1, b2, b3, b4, b5, b6, b7, b8⟩ := hB
+            refine docOK_parenIf env S _ enc S.land _ j1 ?_ ?_ ?_
+            · intro hle o ho
+              simp only [cRootAt, pyPrec, hle, if_true, cRoot]
+              rcases j2 o ho with rfl | ⟨x, hx, hox⟩
+              · decide
+              · exact (hds x hx).2 o hox
+            · intro h1 h2
+              omega
+            · intro w hw
+              simp only [denV, denVAll] at hw
+              simp only [List.map_cons, AllOK] at hall
+              cases h1 : denV env c1 with
+              | none => simp [h1] at hw
+              | some w1 =>
+                simp only [h1] at hw
+                rw [j3, hall.1.2 w1 h1]
+                by_cases hw1 : w1.toInt = 0
+                · simp only [hw1, if_true, Option.some.injEq] at hw
+                  subst hw
+                  rw [hw1]
+                  exact fold_land_zero env drest
+                · simp only [hw1, if_false] at hw
+                  exact fold_land env S S.land (c2 :: cs') drest w1.toInt w
+                    (by simpa [AllOK] using hall.2) (by simp) hw1 (by simpa [denVAll] using hw)
+      | lor =>
+        match cs, hfrag with
+        | c1 :: c2 :: cs', hfrag =>
+          simp only [cFragM, Bool.and_eq_true] at hfrag
+          have hmt : m = true := hfrag.1.1
+          have hB := hm hmt
+          have hL : cFragML m (c1 :: c2 :: cs') = true := by
+            simp only [cFragML, Bool.and_eq_true] at hfrag ⊢
+            exact ⟨hfrag.1.2, hfrag.2⟩
+          simp only [ccodeE] at h
+          obtain ⟨pl, ds, hp, hpa, has⟩ := ccodeGeneric_ok h
+          simp only [plan, pure, Except.pure, Except.ok.injEq] at hp
+          subst hp
+          have hfr : ∀ it ∈ (c1 :: c2 :: cs').map (·, S.lor), cFragM m it.1 = true := by
+            intro it hit
+            obtain ⟨c, hc, rfl⟩ := List.mem_map.mp hit
+            exact cFragML_mem m _ hL c hc
+          have hall := printAll_ok env S m _ ih _ st ds refs st' hfr hpa
+          obtain ⟨hlen, hds⟩ := allOK_level env S m hm S.lor 1
+            (fun c hk => ((ctx_all S hA c hk).2.2.2 hB).2.2.2.2.2.2.2) _ ds hL hall
+          simp only [assemble, pure, Except.pure, Except.ok.injEq] at has
+          subst has
+          cases ds with
+          | nil => simp at hlen
+          | cons d0 drest =>
+            obtain ⟨j1, j2, j3⟩ := joinDocs_ok env .lor d0 drest (fun x hx =>
+              ⟨(hds x hx).1, fun o _ => rightOK_lor o⟩)
+            obtain ⟨b1, b2, b3, b4, b5, b6, b7, b8⟩ := hB
+            refine docOK_parenIf env S _ enc S.lor _ j1 ?_ ?_ ?_
+            · intro hle o ho
+              simp only [cRootAt, pyPrec, hle, if_true, cRoot]
+              exact prec_pos o
+            · intro h1 h2
+              omega
+            · intro w hw
+              simp only [denV, denVAny] at hw
+              simp only [List.map_cons, AllOK] at hall
+              have hdne : drest ≠ [] := by
+                intro hc
+                rw [hc] at hlen
+                simp at hlen
+              cases h1 : denV env c1 with
+              | none => simp [h1] at hw
+              | some w1 =>
+                simp only [h1] at hw
+                rw [j3, hall.1.2 w1 h1]
+                by_cases hw1 : w1.toInt = 0
+                · simp only [hw1, if_true] at hw
+                  rw [hw1]
+                  exact fold_lor env S S.lor (c2 :: cs') drest w
+                    (by simpa [AllOK] using hall.2) (by simp) (by simpa [denVAny] using hw)
+                · simp only [hw1, if_false, Option.some.injEq] at hw
+                  subst hw
+                  exact fold_lor_one env drest w1.toInt hw1 hdne
+      | min =>
+        match cs, hfrag with
+        | [a, b], hfrag =>
+          simp only [cFragM, Bool.and_eq_true] at hfrag
+          simp only [ccodeE] at h
+          obtain ⟨pl, ds, hp, hpa, has⟩ := ccodeGeneric_ok h
+          simp only [plan, pure, Except.pure, Except.ok.injEq] at hp
+          subst hp
+          have hall := printAll_ok env S m _ ih [(a, S.none), (b, S.none)] st ds refs st'
+            (by simp [hfrag.1.2, hfrag.2]) hpa
+          match ds, hall with
+          | [da, db], hall =>
+            simp only [AllOK, and_true] at hall
+            obtain ⟨fa, fb⟩ := hall
             simp only [assemble, pure, Except.pure, Except.ok.injEq] at has
             subst has
-            simp only [parenIfD]
-            split
-            · exact facts_paren j1
-            · rename_i hc
-              have hle : enc ≤ S.product := Nat.le_of_not_lt hc
-              exact ⟨j1, fun _ => j2, fun _ _ => j3,
-                fun _ hk => by simp [simpleKind, isMultiplicative] at hk,
-                fun hk => absurd hk (Nat.not_lt.mpr hle)⟩
-      | _ => simp [intFrag] at hfrag
+            refine ⟨⟨by simp [cwf, fa.1.wf, fb.1.wf], fun o ho => by simp [exposedOps] at ho,
+              fun _ _ o ho => by simp [exposedOps] at ho⟩, fun w hw => ?_⟩
+            simp only [denV] at hw
+            cases ha : denV env a with
+            | none => simp [ha] at hw
+            | some x =>
+              cases hb : denV env b with
+              | none => simp [ha, hb] at hw
+              | some y =>
+                simp only [ha, hb, Option.some.injEq] at hw
+                subst hw
+                simp only [denT, fa.2 x ha, fb.2 y hb, c14Call2]
+                by_cases hlt : y.toInt < x.toInt <;> simp [hlt]
+      | max =>
+        match cs, hfrag with
+        | [a, b], hfrag =>
+          simp only [cFragM, Bool.and_eq_true] at hfrag
+          simp only [ccodeE] at h
+          obtain ⟨pl, ds, hp, hpa, has⟩ := ccodeGeneric_ok h
+          simp only [plan, pure, Except.pure, Except.ok.injEq] at hp
+          subst hp
+          have hall := printAll_ok env S m _ ih [(a, S.none), (b, S.none)] st ds refs st'
+            (by simp [hfrag.1.2, hfrag.2]) hpa
+          match ds, hall with
+          | [da, db], hall =>
+            simp only [AllOK, and_true] at hall
+            obtain ⟨fa, fb⟩ := hall
+            simp only [assemble, pure, Except.pure, Except.ok.injEq] at has
+            subst has
+            refine ⟨⟨by simp [cwf, fa.1.wf, fb.1.wf], fun o ho => by simp [exposedOps] at ho,
+              fun _ _ o ho => by simp [exposedOps] at ho⟩, fun w hw => ?_⟩
+            simp only [denV] at hw
+            cases ha : denV env a with
+            | none => simp [ha] at hw
+            | some x =>
+              cases hb : denV env b with
+              | none => simp [ha, hb] at hw
+              | some y =>
+                simp only [ha, hb, Option.some.injEq] at hw
+                subst hw
+                simp only [denT, fa.2 x ha, fb.2 y hb, c14Call2]
+                by_cases hlt : x.toInt < y.toInt <;> simp [hlt]
     | bin op a b =>
       cases op with
+      | quot => simp [cFragM] at hfrag
       | floordiv =>
-        simp only [intFrag, Bool.and_eq_true] at hfrag
+        simp only [cFragM, Bool.and_eq_true] at hfrag
         simp only [ccodeE] at h
         obtain ⟨pl, ds, hp, hpa, has⟩ := ccodeGeneric_ok h
         simp only [plan, pure, Except.pure, Except.ok.injEq] at hp
         subst hp
-        simp only [denN] at hv
-        cases ha : denN env a with
-        | none => simp [ha] at hv
-        | some x =>
-          cases hb : denN env b with
-          | none => simp [ha, hb] at hv
-          | some y =>
-            simp only [ha, hb] at hv
-            split at hv
-            · rename_i hxy
-              simp only [Option.some.injEq] at hv
-              subst hv
-              have hall := printAll_facts env S _ ih [(a, S.product), (b, S.power)] st ds refs st'
-                [x, y] (by simp [hfrag.1, hfrag.2]) hpa (by simp [denNL, ha, hb])
-              match ds, hall with
-              | [dx, dy], hall =>
-                simp only [AllFacts, and_true] at hall
-                obtain ⟨fx, fy⟩ := hall
-                simp only [assemble, pure, Except.pure, Except.ok.injEq] at has
-                subst has
-                have hy0 : y ≠ 0 := by omega
-                refine facts_paren ?_
-                simp [denC, fx.notAdd hS.1, fx.val,
-                  applyC_atomic env .divTight dy x y fy.val (fy.tight hS.2), COp.apply, hy0,
+        have hall := printAll_ok env S m _ ih [(a, S.product), (b, S.power)] st ds refs st'
+          (by simp [hfrag.1, hfrag.2]) hpa
+        match ds, hall with
+        | [dx, dy], hall =>
+          simp only [AllOK, and_true] at hall
+          obtain ⟨fx, fy⟩ := hall
+          simp only [assemble, pure, Except.pure, Except.ok.injEq] at has
+          subst has
+          have hy0 : exposedOps dy = [] := no_ops_of_eleven (fun o ho =>
+            Nat.le_trans (ctx b hfrag.2).2.2.1 (fy.1.expo o ho))
+          have hw : cwf (Doc.bin dx .divTight dy) = true := by
+            simp only [cwf, fitsL, fitsR, hy0, List.all_nil, Bool.and_true, Bool.and_eq_true,
+              List.all_eq_true, decide_eq_true_eq]
+            exact ⟨⟨fx.1.wf, fy.1.wf⟩, fun o ho =>
+              Nat.le_trans (ctx a hfrag.1).2.1 (fx.1.expo o ho)⟩
+          refine ⟨shape_paren hw, fun w hw' => ?_⟩
+          simp only [denV] at hw'
+          cases ha : denV env a with
+          | none => simp [ha] at hw'
+          | some x =>
+            cases hb : denV env b with
+            | none => simp [ha, hb] at hw'
+            | some y =>
+              simp only [ha, hb] at hw'
+              split at hw'
+              · rename_i hxy
+                simp only [Option.some.injEq] at hw'
+                subst hw'
+                have hyn : y.toInt ≠ 0 := by omega
+                simp [denT, fx.2 x ha, fy.2 y hb, COp.applyL, COp.apply, hyn,
                   Int.tdiv_eq_ediv_of_nonneg hxy.1]
-            · cases hv
+              · cases hw'
       | rem =>
-        simp only [intFrag, Bool.and_eq_true, Bool.not_eq_true'] at hfrag
+        simp only [cFragM, Bool.and_eq_true, Bool.not_eq_true'] at hfrag
         simp only [ccodeE] at h
         obtain ⟨pl, ds, hp, hpa, has⟩ := ccodeGeneric_ok h
         simp only [plan, pure, Except.pure, Except.ok.injEq] at hp
         subst hp
-        simp only [denN] at hv
-        cases ha : denN env a with
-        | none => simp [ha] at hv
-        | some x =>
-          cases hb : denN env b with
-          | none => simp [ha, hb] at hv
-          | some y =>
-            simp only [ha, hb] at hv
-            split at hv
-            · rename_i hxy
-              simp only [Option.some.injEq] at hv
-              subst hv
-              have hall := printAll_facts env S _ ih [(a, S.product), (b, S.product)] st ds refs st'
-                [x, y] (by simp [hfrag.1.1, hfrag.1.2]) hpa (by simp [denNL, ha, hb])
-              match ds, hall with
-              | [dx, dy], hall =>
-                simp only [AllFacts, and_true] at hall
-                obtain ⟨fx, fy⟩ := hall
-                simp only [assemble, pure, Except.pure, Except.ok.injEq] at has
-                have hy0 : y ≠ 0 := by omega
-                -- the two operands as they are put into the text
-                have hx1 : denC env (forceWrapD a dx) = some x := by
-                  simp only [forceWrapD]; split <;> simp [denC, fx.val]
-                have hx2 : (forceWrapD a dx).addBare = false := by
-                  simp only [forceWrapD]; split
-                  · rfl
-                  · exact fx.notAdd hS.1
-                have hy1 : denC env (forceWrapD b dy) = some y := by
-                  simp only [forceWrapD]; split <;> simp [denC, fy.val]
-                have hy2 : atomic (forceWrapD b dy) = true := by
-                  simp only [forceWrapD]; split
-                  · rfl
-                  · rename_i hm
-                    exact fy.simple hS.1 (by simp [simpleKind, hm, hfrag.2])
-                have hval : denC env (.bin (forceWrapD a dx) .mod (forceWrapD b dy))
-                    = some (x % y) := by
-                  simp [denC, hx2, hx1, applyC_atomic env .mod _ x y hy1 hy2, COp.apply, hy0,
+        have hall := printAll_ok env S m _ ih [(a, S.product), (b, S.product)] st ds refs st'
+          (by simp [hfrag.1.1, hfrag.1.2]) hpa
+        match ds, hall with
+        | [dx, dy], hall =>
+          simp only [AllOK, and_true] at hall
+          obtain ⟨fx, fy⟩ := hall
+          simp only [assemble, pure, Except.pure, Except.ok.injEq] at has
+          subst has
+          have hx10 : ∀ o ∈ exposedOps (forceWrapD a dx), 10 ≤ o.prec := fun o ho =>
+            Nat.le_trans (ctx a hfrag.1.1).2.1 (fx.1.expo o (exposed_forceWrap a dx o ho).1)
+          have hy0 : exposedOps (forceWrapD b dy) = [] := no_ops_of_eleven (fun o ho => by
+            obtain ⟨h1, h2⟩ := exposed_forceWrap b dy o ho
+            exact Nat.le_trans (simple_root S hA b (kind_ok S m hm b hfrag.1.2) h2 hfrag.2)
+              (fy.1.expo o h1))
+          have hw : cwf (Doc.bin (forceWrapD a dx) .mod (forceWrapD b dy)) = true := by
+            simp only [cwf, fitsL, fitsR, hy0, List.all_nil, Bool.and_true, Bool.and_eq_true,
+              List.all_eq_true, decide_eq_true_eq]
+            exact ⟨⟨cwf_forceWrap a dx fx.1.wf, cwf_forceWrap b dy fy.1.wf⟩, hx10⟩
+          refine docOK_parenIf env S _ enc S.product _ hw ?_ ?_ ?_
+          · intro hle o ho
+            simp only [cRootAt, pyPrec, hle, if_true, cRoot]
+            simp only [exposedOps, hy0, List.mem_append, List.mem_cons, List.not_mem_nil,
+              or_false] at ho
+            rcases ho with ho | rfl
+            · exact hx10 o ho
+            · decide
+          · intro _ _ hr
+            simp [isRem] at hr
+          · intro w hw'
+            simp only [denV] at hw'
+            cases ha : denV env a with
+            | none => simp [ha] at hw'
+            | some x =>
+              cases hb : denV env b with
+              | none => simp [ha, hb] at hw'
+              | some y =>
+                simp only [ha, hb] at hw'
+                split at hw'
+                · rename_i hxy
+                  simp only [Option.some.injEq] at hw'
+                  subst hw'
+                  have hyn : y.toInt ≠ 0 := by omega
+                  simp [denT, denT_forceWrap, fx.2 x ha, fy.2 y hb, COp.applyL, COp.apply, hyn,
                     Int.tmod_eq_emod_of_nonneg hxy.1]
-                subst has
-                simp only [parenIfD]
-                split
-                · exact facts_paren hval
-                · rename_i hc
-                  have hle : enc ≤ S.product := Nat.le_of_not_lt hc
-                  exact ⟨hval, fun _ => rfl, fun _ hr => by simp [isRem] at hr,
-                    fun _ hk => by simp [simpleKind, isMultiplicative] at hk,
-                    fun hk => absurd hk (Nat.not_lt.mpr hle)⟩
-            · cases hv
+                · cases hw'
       | pow =>
-        match a, b, hfrag, hv with
-        | .var x, .const (.int m), hfrag, hv =>
-          simp only [intFrag, beq_iff_eq] at hfrag
+        match a, b, hfrag with
+        | .var x, .const (.int k), hfrag =>
+          simp only [cFragM, beq_iff_eq] at hfrag
           subst hfrag
           obtain ⟨r, hr, hr'⟩ := powPlan_var_two x
           subst hr'
@@ -1207,25 +1828,424 @@ theorem value_core (env : Env) (S : PrintPrec) (hS : S.sum < S.product ∧ S.pro
           obtain ⟨pl, ds, hp, hpa, has⟩ := ccodeGeneric_ok h
           simp only [plan, hr, bind, Except.bind, pure, Except.pure, Except.ok.injEq] at hp
           subst hp
-          have hv' : ∃ vx, envInt env x = some vx ∧ vx * vx = v := by
-            simpa [denN] using hv
-          obtain ⟨vx, hxe, hvv⟩ := hv'
-          subst hvv
-          have hx : denN env (.var x) = some vx := by simpa [denN] using hxe
-          have hfr : intFrag (.nary .prod [.var x, .var x]) = true := by
-            simp [intFrag, intFragP, isRem]
-          have hvp : denN env (.nary .prod [.var x, .var x]) = some (vx * vx) := by
-            simp [denN, denNL, hxe, prodL]
-          have hall := printAll_facts env S _ ih [(.nary .prod [.var x, .var x], enc)] st ds refs
-            st' [vx * vx] (by simp [hfr]) hpa (by simp [denNL, hvp])
+          have hfr : cFragM m (.nary .prod [.var x, .var x]) = true := by
+            simp [cFragM, cFragMP, isRem]
+          have hall := printAll_ok env S m _ ih [(.nary .prod [.var x, .var x], enc)] st ds refs
+            st' (by simp [hfr]) hpa
           match ds, hall with
           | [d1], hall =>
-            simp only [AllFacts, and_true] at hall
+            simp only [AllOK, and_true] at hall
             simp only [assemble, hr, bind, Except.bind, pure, Except.pure, Except.ok.injEq] at has
             subst has
-            exact ⟨hall.val, hall.notAdd, fun hk _ => hall.safe hk rfl,
-              fun _ hk => by simp [simpleKind, isPow] at hk, hall.tight⟩
-      | _ => simp [intFrag] at hfrag
-    | _ => simp [intFrag] at hfrag
+            refine ⟨⟨hall.1.wf, hall.1.expo, fun h1 _ => hall.1.safe h1 rfl⟩, fun w hw => ?_⟩
+            simp only [denV, if_true] at hw
+            cases hx : envInt env x with
+            | none => simp [hx] at hw
+            | some vx =>
+              simp only [hx, Option.map_some, Option.some.injEq] at hw
+              subst hw
+              have := hall.2 (.i (vx * (vx * 1))) (by simp [denV, denVL, hx, prodL])
+              simpa using this
+      | lshift =>
+        simp only [cFragM, Bool.and_eq_true] at hfrag
+        have hB := hm hfrag.1.1
+        simp only [ccodeE] at h
+        obtain ⟨pl, ds, hp, hpa, has⟩ := ccodeGeneric_ok h
+        simp only [plan, pure, Except.pure, Except.ok.injEq] at hp
+        subst hp
+        have hall := printAll_ok env S m _ ih [(a, S.shift + 1), (b, S.shift + 1)] st ds refs st'
+          (by simp [hfrag.1.2, hfrag.2]) hpa
+        match ds, hall with
+        | [dx, dy], hall =>
+          simp only [AllOK, and_true] at hall
+          obtain ⟨fx, fy⟩ := hall
+          simp only [assemble, pure, Except.pure, Except.ok.injEq] at has
+          subst has
+          have hx9 : ∀ o ∈ exposedOps dx, 9 ≤ o.prec := fun o ho =>
+            Nat.le_trans ((ctx a hfrag.1.2).2.2.2 hB).2.1 (fx.1.expo o ho)
+          have hy9 : ∀ o ∈ exposedOps dy, 9 ≤ o.prec := fun o ho =>
+            Nat.le_trans ((ctx b hfrag.2).2.2.2 hB).2.1 (fy.1.expo o ho)
+          have hw : cwf (Doc.bin dx .shl dy) = true := by
+            simp only [cwf, fitsL, fitsR, Bool.and_eq_true, List.all_eq_true, decide_eq_true_eq]
+            exact ⟨⟨⟨fx.1.wf, fy.1.wf⟩, fun o ho => Nat.le_trans (by decide) (hx9 o ho)⟩,
+              fun o ho => rightOK_of_lt (Nat.lt_of_lt_of_le (by decide) (hy9 o ho))⟩
+          obtain ⟨b1, b2, b3, b4, b5, b6, b7, b8⟩ := hB
+          refine docOK_parenIf env S _ enc S.shift _ hw ?_ ?_ ?_
+          · intro hle o ho
+            simp only [cRootAt, pyPrec, hle, if_true, cRoot]
+            simp only [exposedOps, List.mem_append, List.mem_cons] at ho
+            rcases ho with ho | rfl | ho
+            · exact Nat.le_trans (by decide) (hx9 o ho)
+            · decide
+            · exact Nat.le_trans (by decide) (hy9 o ho)
+          · intro h1 h2
+            omega
+          · intro w hw'
+            simp only [denV] at hw'
+            cases ha : denV env a with
+            | none => simp [ha] at hw'
+            | some x =>
+              cases hb : denV env b with
+              | none => simp [ha, hb] at hw'
+              | some y =>
+                simp only [ha, hb] at hw'
+                split at hw'
+                · rename_i hxy
+                  simp only [Option.some.injEq] at hw'
+                  subst hw'
+                  have hn : ¬ (x.toInt < 0 ∨ y.toInt < 0) := by omega
+                  simp [denT, fx.2 x ha, fy.2 y hb, COp.applyL, COp.apply, hn]
+                · cases hw'
+      | rshift =>
+        simp only [cFragM, Bool.and_eq_true] at hfrag
+        have hB := hm hfrag.1.1
+        simp only [ccodeE] at h
+        obtain ⟨pl, ds, hp, hpa, has⟩ := ccodeGeneric_ok h
+        simp only [plan, pure, Except.pure, Except.ok.injEq] at hp
+        subst hp
+        have hall := printAll_ok env S m _ ih [(a, S.shift + 1), (b, S.shift + 1)] st ds refs st'
+          (by simp [hfrag.1.2, hfrag.2]) hpa
+        match ds, hall with
+        | [dx, dy], hall =>
+          simp only [AllOK, and_true] at hall
+          obtain ⟨fx, fy⟩ := hall
+          simp only [assemble, pure, Except.pure, Except.ok.injEq] at has
+          subst has
+          have hx9 : ∀ o ∈ exposedOps dx, 9 ≤ o.prec := fun o ho =>
+            Nat.le_trans ((ctx a hfrag.1.2).2.2.2 hB).2.1 (fx.1.expo o ho)
+          have hy9 : ∀ o ∈ exposedOps dy, 9 ≤ o.prec := fun o ho =>
+            Nat.le_trans ((ctx b hfrag.2).2.2.2 hB).2.1 (fy.1.expo o ho)
+          have hw : cwf (Doc.bin dx .shr dy) = true := by
+            simp only [cwf, fitsL, fitsR, Bool.and_eq_true, List.all_eq_true, decide_eq_true_eq]
+            exact ⟨⟨⟨fx.1.wf, fy.1.wf⟩, fun o ho => Nat.le_trans (by decide) (hx9 o ho)⟩,
+              fun o ho => rightOK_of_lt (Nat.lt_of_lt_of_le (by decide) (hy9 o ho))⟩
+          obtain ⟨b1, b2, b3, b4, b5, b6, b7, b8⟩ := hB
+          refine docOK_parenIf env S _ enc S.shift _ hw ?_ ?_ ?_
+          · intro hle o ho
+            simp only [cRootAt, pyPrec, hle, if_true, cRoot]
+            simp only [exposedOps, List.mem_append, List.mem_cons] at ho
+            rcases ho with ho | rfl | ho
+            · exact Nat.le_trans (by decide) (hx9 o ho)
+            · decide
+            · exact Nat.le_trans (by decide) (hy9 o ho)
+          · intro h1 h2
+            omega
+          · intro w hw'
+            simp only [denV] at hw'
+            cases ha : denV env a with
+            | none => simp [ha] at hw'
+            | some x =>
+              cases hb : denV env b with
+              | none => simp [ha, hb] at hw'
+              | some y =>
+                simp only [ha, hb] at hw'
+                split at hw'
+                · rename_i hxy
+                  simp only [Option.some.injEq] at hw'
+                  subst hw'
+                  have hn : ¬ (x.toInt < 0 ∨ y.toInt < 0) := by omega
+                  simp [denT, fx.2 x ha, fy.2 y hb, COp.applyL, COp.apply, hn]
+                · cases hw'
+    | un op a =>
+      simp only [cFragM, Bool.and_eq_true] at hfrag
+      have hB := hm hfrag.1
+      simp only [ccodeE] at h
+      obtain ⟨pl, ds, hp, hpa, has⟩ := ccodeGeneric_ok h
+      simp only [plan, pure, Except.pure, Except.ok.injEq] at hp
+      subst hp
+      have hall := printAll_ok env S m _ ih [(a, S.unary)] st ds refs st' (by simp [hfrag.2]) hpa
+      match ds, hall with
+      | [dx], hall =>
+        simp only [AllOK, and_true] at hall
+        have hx0 : exposedOps dx = [] := no_ops_of_eleven (fun o ho =>
+          Nat.le_trans ((ctx a hfrag.2).2.2.2 hB).1 (hall.1.expo o ho))
+        cases op with
+        | bnot =>
+          simp only [assemble, pure, Except.pure, Except.ok.injEq] at has
+          subst has
+          refine docOK_parenIf env S _ enc S.unary _ (by simp [cwf, hall.1.wf, hx0]) ?_ ?_ ?_
+          · intro _ o ho
+            simp [exposedOps, hx0] at ho
+          · intro _ _ _ o ho
+            simp [exposedOps, hx0] at ho
+          · intro w hw
+            simp only [denV] at hw
+            cases ha : denV env a with
+            | none => simp [ha] at hw
+            | some x =>
+              simp only [ha, Option.map_some, Option.some.injEq] at hw
+              subst hw
+              simp [denT, hall.2 x ha, CUn.apply]
+        | lnot =>
+          simp only [assemble, pure, Except.pure, Except.ok.injEq] at has
+          subst has
+          refine docOK_parenIf env S _ enc S.unary _ (by simp [cwf, hall.1.wf, hx0]) ?_ ?_ ?_
+          · intro _ o ho
+            simp [exposedOps, hx0] at ho
+          · intro _ _ _ o ho
+            simp [exposedOps, hx0] at ho
+          · intro w hw
+            simp only [denV] at hw
+            cases ha : denV env a with
+            | none => simp [ha] at hw
+            | some x =>
+              simp only [ha, Option.map_some, Option.some.injEq] at hw
+              subst hw
+              simp [denT, hall.2 x ha, CUn.apply, CVal.toInt]
+    | cmp o a b =>
+      simp only [cFragM, Bool.and_eq_true, Bool.not_eq_true'] at hfrag
+      obtain ⟨⟨⟨⟨hmt, hfa⟩, hfb⟩, hna⟩, hnb⟩ := hfrag
+      have hB := hm hmt
+      simp only [ccodeE] at h
+      obtain ⟨pl, ds, hp, hpa, has⟩ := ccodeGeneric_ok h
+      simp only [plan, pure, Except.pure, Except.ok.injEq] at hp
+      subst hp
+      have hall := printAll_ok env S m _ ih [(a, S.comparison + 1), (b, S.comparison + 1)] st ds
+        refs st' (by simp [hfa, hfb]) hpa
+      match ds, hall with
+      | [dx, dy], hall =>
+        simp only [AllOK, and_true] at hall
+        obtain ⟨fx, fy⟩ := hall
+        simp only [assemble, pure, Except.pure, Except.ok.injEq] at has
+        subst has
+        have hx8 : ∀ o' ∈ exposedOps dx, 8 ≤ o'.prec := fun o' ho =>
+          Nat.le_trans (((ctx a hfa).2.2.2 hB).2.2.1 hna) (fx.1.expo o' ho)
+        have hy8 : ∀ o' ∈ exposedOps dy, 8 ≤ o'.prec := fun o' ho =>
+          Nat.le_trans (((ctx b hfb).2.2.2 hB).2.2.1 hnb) (fy.1.expo o' ho)
+        obtain ⟨hc1, hc2, hc3⟩ := cmp_prec o a b
+        have hw : cwf (Doc.bin dx (.cmp o) dy) = true := by
+          simp only [cwf, fitsL, fitsR, Bool.and_eq_true, List.all_eq_true, decide_eq_true_eq]
+          exact ⟨⟨⟨fx.1.wf, fy.1.wf⟩, fun o' ho => Nat.le_trans (by omega) (hx8 o' ho)⟩,
+            fun o' ho => rightOK_of_lt (Nat.lt_of_lt_of_le (by omega) (hy8 o' ho))⟩
+        obtain ⟨b1, b2, b3, b4, b5, b6, b7, b8⟩ := hB
+        refine docOK_parenIf env S _ enc S.comparison _ hw ?_ ?_ ?_
+        · intro hle o' ho
+          simp only [cRootAt, pyPrec, hle, if_true, ← hc1]
+          simp only [exposedOps, List.mem_append, List.mem_cons] at ho
+          rcases ho with ho | rfl | ho
+          · exact Nat.le_trans (by omega) (hx8 o' ho)
+          · exact Nat.le_refl _
+          · exact Nat.le_trans (by omega) (hy8 o' ho)
+        · intro h1 h2
+          omega
+        · intro w hw'
+          simp only [denV] at hw'
+          cases ha : denV env a with
+          | none => simp [ha] at hw'
+          | some x =>
+            cases hb : denV env b with
+            | none => simp [ha, hb] at hw'
+            | some y =>
+              simp only [ha, hb, Option.some.injEq] at hw'
+              subst hw'
+              simp [denT, fx.2 x ha, fy.2 y hb, COp.applyL, COp.apply, CVal.toInt]
+    | ite c t e =>
+      simp only [cFragM, Bool.and_eq_true] at hfrag
+      obtain ⟨⟨⟨hmt, hfc⟩, hft⟩, hfe⟩ := hfrag
+      simp only [ccodeE] at h
+      obtain ⟨pl, ds, hp, hpa, has⟩ := ccodeGeneric_ok h
+      simp only [plan, pure, Except.pure, Except.ok.injEq] at hp
+      subst hp
+      have hall := printAll_ok env S m _ ih [(c, S.none), (t, S.none), (e, S.none)] st ds
+        refs st' (by simp [hfc, hft, hfe]) hpa
+      match ds, hall with
+      | [dc, dt, de], hall =>
+        simp only [AllOK, and_true] at hall
+        obtain ⟨fc, ft, fe⟩ := hall
+        simp only [assemble, pure, Except.pure, Except.ok.injEq] at has
+        subst has
+        refine ⟨⟨by simp [cwf, fc.1.wf, ft.1.wf, fe.1.wf], fun o ho => by simp [exposedOps] at ho,
+          fun _ _ o ho => by simp [exposedOps] at ho⟩, fun w hw => ?_⟩
+        simp only [denV] at hw
+        cases hc : denV env c with
+        | none => simp [hc] at hw
+        | some wc =>
+          simp only [hc] at hw
+          simp only [denT, fc.2 wc hc, c14Tern]
+          by_cases hz : wc.toInt = 0
+          · simp only [hz, if_true] at hw ⊢
+            exact fe.2 w hw
+          · simp only [hz, if_false] at hw ⊢
+            exact ft.2 w hw
+    | _ => simp [cFragM] at hfrag
+
+/-! ### the arithmetic fragment of the first version is part of the enlarged one -/
+
+theorem fragL_of : ∀ (cs : List Expr), (∀ c ∈ cs, intFrag c = true → cFragM false c = true) →
+    intFragL cs = true → cFragML false cs = true
+  | [], _, _ => rfl
+  | c :: cs, ih, h => by
+      simp only [intFragL, Bool.and_eq_true] at h
+      simp [cFragML, ih c (by simp) h.1, fragL_of cs (fun c' hc' => ih c' (by simp [hc'])) h.2]
+
+theorem fragP_of : ∀ (cs : List Expr), (∀ c ∈ cs, intFrag c = true → cFragM false c = true) →
+    intFragP cs = true → cFragMP false cs = true
+  | [], _, _ => rfl
+  | c :: cs, ih, h => by
+      simp only [intFragP, Bool.and_eq_true] at h
+      simp [cFragMP, ih c (by simp) h.1.1, h.1.2,
+        fragP_of cs (fun c' hc' => ih c' (by simp [hc'])) h.2]
+
+theorem intFrag_cFragM (e : Expr) : intFrag e = true → cFragM false e = true := by
+  induction e using Expr.induct with
+  | h e ih =>
+    intro h
+    cases e with
+    | const c => cases c <;> simp [intFrag] at h; rfl
+    | var x => rfl
+    | nary op cs =>
+      have ihc : ∀ c ∈ cs, intFrag c = true → cFragM false c = true :=
+        fun c hc => ih c (by simp [Expr.children, hc])
+      cases op with
+      | sum =>
+        match cs, h, ihc with
+        | [], h, _ => simp [intFrag] at h
+        | c :: cs', h, ihc =>
+          simp only [intFrag, Bool.and_eq_true] at h
+          simp [cFragM, ihc c (by simp) h.1.1, h.1.2,
+            fragL_of cs' (fun c' hc' => ihc c' (by simp [hc'])) h.2]
+      | prod =>
+        match cs, h, ihc with
+        | [], h, _ => simp [intFrag] at h
+        | [_], h, _ => simp [intFrag] at h
+        | c1 :: c2 :: cs', h, ihc =>
+          simp only [intFrag, Bool.and_eq_true] at h
+          simp [cFragM, ihc c1 (by simp) h.1.1, h.1.2,
+            fragP_of (c2 :: cs') (fun c' hc' => ihc c' (by simp [hc'])) h.2]
+      | _ => simp [intFrag] at h
+    | bin op a b =>
+      have iha := ih a (by simp [Expr.children])
+      have ihb := ih b (by simp [Expr.children])
+      cases op with
+      | floordiv =>
+        simp only [intFrag, Bool.and_eq_true] at h
+        simp [cFragM, iha h.1, ihb h.2]
+      | rem =>
+        simp only [intFrag, Bool.and_eq_true] at h
+        simp [cFragM, iha h.1.1, ihb h.1.2, h.2]
+      | pow =>
+        match a, b, h with
+        | .var _, .const (.int k), h =>
+          simpa [intFrag, cFragM] using h
+      | _ => simp [intFrag] at h
+    | _ => simp [intFrag] at h
+
+theorem map_toInt_i (vs : List Int) : vs.map (CVal.toInt ∘ CVal.i) = vs := by
+  induction vs with
+  | nil => rfl
+  | cons v vs ih => simp [ih]
+
+theorem denNL_denVL (env : Env) : ∀ (cs : List Expr) (vs : List Int),
+    (∀ c ∈ cs, ∀ v, denN env c = some v → denV env c = some (.i v)) →
+    denNL env cs = some vs → denVL env cs = some (vs.map .i)
+  | [], vs, _, h => by
+      simp only [denNL, Option.some.injEq] at h
+      subst h
+      rfl
+  | c :: cs, vs, ih, h => by
+      simp only [denNL] at h
+      cases hc : denN env c with
+      | none => simp [hc] at h
+      | some v =>
+        cases hcs : denNL env cs with
+        | none => simp [hc, hcs] at h
+        | some ws =>
+          simp only [hc, hcs, Option.some.injEq] at h
+          subst h
+          simp [denVL, ih c (by simp) v hc,
+            denNL_denVL env cs ws (fun c' hc' => ih c' (by simp [hc'])) hcs]
+
+/-- the meaning of the first version agrees with `denV` -/
+theorem denN_denV (env : Env) (e : Expr) : ∀ v, denN env e = some v → denV env e = some (.i v) := by
+  induction e using Expr.induct with
+  | h e ih =>
+    intro v h
+    cases e with
+    | const c =>
+      cases c <;> simp [denN] at h
+      subst h
+      rfl
+    | var x =>
+      simp only [denN] at h
+      simp [denV, h]
+    | nary op cs =>
+      have ihc : ∀ c ∈ cs, ∀ v, denN env c = some v → denV env c = some (.i v) :=
+        fun c hc => ih c (by simp [Expr.children, hc])
+      cases op <;> simp only [denN] at h <;> try cases h
+      · cases hcs : denNL env cs with
+        | none => simp [hcs] at h
+        | some vs =>
+          simp only [hcs, Option.map_some, Option.some.injEq] at h
+          subst h
+          simp [denV, denNL_denVL env cs vs ihc hcs, map_toInt_i]
+      · cases hcs : denNL env cs with
+        | none => simp [hcs] at h
+        | some vs =>
+          simp only [hcs, Option.map_some, Option.some.injEq] at h
+          subst h
+          simp [denV, denNL_denVL env cs vs ihc hcs, map_toInt_i]
+    | bin op a b =>
+      have iha := ih a (by simp [Expr.children])
+      have ihb := ih b (by simp [Expr.children])
+      cases op with
+      | floordiv =>
+        simp only [denN] at h
+        cases ha : denN env a with
+        | none => simp [ha] at h
+        | some x =>
+          cases hb : denN env b with
+          | none => simp [ha, hb] at h
+          | some y =>
+            simp only [ha, hb] at h
+            split at h
+            · rename_i hxy
+              simp only [Option.some.injEq] at h
+              subst h
+              simp [denV, iha x ha, ihb y hb, hxy]
+            · cases h
+      | rem =>
+        simp only [denN] at h
+        cases ha : denN env a with
+        | none => simp [ha] at h
+        | some x =>
+          cases hb : denN env b with
+          | none => simp [ha, hb] at h
+          | some y =>
+            simp only [ha, hb] at h
+            split at h
+            · rename_i hxy
+              simp only [Option.some.injEq] at h
+              subst h
+              simp [denV, iha x ha, ihb y hb, hxy]
+            · cases h
+      | pow =>
+        cases b with
+        | const c =>
+          cases c with
+          | int k =>
+            simp only [denN] at h
+            split at h
+            · rename_i hk
+              subst hk
+              cases ha : denN env a with
+              | none => simp [ha] at h
+              | some x =>
+                simp only [ha, Option.map_some, Option.some.injEq] at h
+                subst h
+                simp [denV, iha x ha]
+            · cases h
+          | _ => simp [denN] at h
+        | _ => simp [denN] at h
+      | _ => simp [denN] at h
+    | _ => simp [denN] at h
+
+/-- **the C value of the printed structure is the fragment's meaning** (C's reading of the text) -/
+theorem value_denC (env : Env) (S : PrintPrec) (m : Bool) (hA : PrecA S) (hm : m = true → PrecB S)
+    (e : Expr) (st : CSt) (d : Doc) (refs : List String) (st' : CSt) (w : CVal)
+    (hfrag : cFragM m e = true) (hrun : ccode S st e = .ok (d, refs, st'))
+    (hv : denV env e = some w) : denC env d = some w.toInt := by
+  obtain ⟨hs, hval⟩ := value_core env S m hA hm _ st e _ d refs st' hfrag hrun
+  rw [denC_eq_denT env d hs.wf]
+  exact hval w hv
 
 end PV.C14
